@@ -12,2518 +12,2481 @@ Definition show_fres (r : fres) : string :=
   end.
 Definition check (rs : list rune) : string := digest (show_fres (format_res rs)).
 Definition full (rs : list rune) : string := show_fres (format_res rs).
-Eval vm_compute in ("<<<M3502>>>" ++ check (runes_of_ascii "// top
+Eval vm_compute in ("<<<M3549>>>" ++ check (runes_of_ascii "// top
 options // c0a
   // c0b
-{ // c1a
-  // c1b
-LittleEndian // c2a
-  // c2b
-=
-    // c3
-true ; // c5
-StringPrefixLenType
-    // c6
-= u32 // c8a
-  // c8b
-; FixedStringPadChar
-    // c10
-= '0'
-    // c12
-; } // c14
-packet Logout // c16
-{ // c17a
-  // c17b
-repeat InMsgkind49
-    // c19
 {
-    // c20
-u8 // c21a
+    // c1
+StringPrefixLenType // c2
+= u8 ; ArrayPrefixLenType // c6
+= // c7
+u32
+    // c8
+; // c9
+FixedStringPadFromLeft
+    // c10
+= // c11a
+  // c11b
+false // c12a
+  // c12b
+;
+    // c13
+FixedStringPadChar = ' ' ; // c17a
+  // c17b
+} // c18a
+  // c18b
+packet Party // c20a
+  // c20b
+{ // c21a
   // c21b
-pad0
+repeat
     // c22
-, } // c24a
-  // c24b
+i16 // c23a
+  // c23b
+Qty
+    // c24
 , // c25a
   // c25b
-repeat // c26a
-  // c26b
-char[
-    // c27
-5
-    // c28
-] seqNo
-    // c30
-, // c31a
+repeat string // c27
+Tail // c28a
+  // c28b
+, i8 OrderId // c31a
   // c31b
-repeat u8 // c33a
-  // c33b
-price // c34
-,
-    // c35
-} // c36a
-  // c36b
-packet // c37a
-  // c37b
-Party { // c39a
-  // c39b
-zchar[
-    // c40
-7 ] Qty // c43a
-  // c43b
-, } // c45a
+, // c32a
+  // c32b
+i8 msgKind // c34a
+  // c34b
+, // c35a
+  // c35b
+} packet Ack // c38
+{
+    // c39
+Party // c40a
+  // c40b
+, repeat // c42a
+  // c42b
+InRef20
+    // c43
+{ Party // c45a
   // c45b
-packet // c46a
-  // c46b
-Logon // c47a
+, int8 // c47a
   // c47b
-{
+tag7
     // c48
-repeat // c49a
-  // c49b
-InRef10 // c50
-{
-    // c51
-string // c52a
-  // c52b
-price
-    // c53
-, char[]
-    // c55
-sym ,
-    // c57
-repeat Logout // c59
-, // c60
-} // c61a
-  // c61b
 ,
-    // c62
-repeat // c63
-char[ // c64a
-  // c64b
-3 ] count // c67
-, // c68a
-  // c68b
-repeat // c69
-Party , // c71
-char[] tag7
-    // c73
-, // c74a
-  // c74b
-@rightPad ( // c76a
-  // c76b
-'0'
-    // c77
-)
-    // c78
-char[ 2
-    // c80
-]
-    // c81
-clOrdID // c82
-, } // c84a
-  // c84b
-packet // c85
-Order // c86
-{ // c87
-InTail13 // c88a
-  // c88b
-{
-    // c89
-Party // c90a
-  // c90b
-, } // c92
-, repeat char[
-    // c95
-4
-    // c96
-] count
-    // c98
-, }
-    // c100
-root // c101
-packet
-    // c102
-Cancel
-    // c103
-{ // c104a
-  // c104b
-Logout , // c106
-@leftPad // c107a
-  // c107b
-( '0' ) // c110a
-  // c110b
-char[ // c111
-9 ] // c113
-msgKind // c114a
-  // c114b
-,
-    // c115
-string // c116a
-  // c116b
-lastPx ,
-    // c118
-string // c119
-tag7 // c120
-, // c121a
-  // c121b
-zchar[ 1 ] // c124
-OrderId
-    // c125
-, // c126a
-  // c126b
-repeat // c127
-Party // c128a
-  // c128b
-,
-    // c129
-u16 // c130a
-  // c130b
-sym
-    // c131
-, // c132a
-  // c132b
-u16 // c133a
-  // c133b
-Acct // c134a
-  // c134b
-@lengthOf( Body )
-    // c137
-, // c138
-match sym
-    // c140
-as // c141a
-  // c141b
-Body // c142a
-  // c142b
-{ // c143a
-  // c143b
-[ // c144a
-  // c144b
-24 , // c146
-44 // c147
-]
-    // c148
-: // c149a
-  // c149b
-Logout // c150a
-  // c150b
-, 160 // c152a
-  // c152b
-: // c153
-Order // c154a
-  // c154b
-, // c155
-91 // c156
-:
-    // c157
-Logon
-    // c158
-,
-    // c159
-43
-    // c160
-: // c161a
-  // c161b
-Party // c162a
-  // c162b
-, }
-    // c164
-, // c165a
-  // c165b
-u16 // c166a
-  // c166b
-Tail @calculatedFrom( ""CRC32"" ) // c170a
-  // c170b
-, // c171a
-  // c171b
-} // c172
-")).
-Eval vm_compute in ("<<<M310>>>" ++ check (runes_of_ascii "root packet rootA {@calculatedFrom(
-""""
-)match packetx as x_y_z
-{ // `tick` ""quote"" 'q'
-""" ++ [28040; 24687]%N ++ runes_of_ascii """ : crc , ""a	b""
-    :
-i8i8, ""it's"" : msg_type
-10
-    :
-string_,0123456789:int ,
-}	,	zchar[ 0123456789
-    ]
-_x	`say ""hi""` , @lengthOf(	lengthOf )
-repeat
-    //x
-    chars
-{ repeat i16 u , }, i16 u @lengthOf( Pad ) `say ""hi""`
-, string
-    u8x @calculatedFrom(
-    ""\n""
-    ) //	t
-`" ++ [233]%N ++ runes_of_ascii "` //x
-,MetaDataX`" ++ [233]%N ++ runes_of_ascii "` , char[] Header  @lengthOf(
-    //	t
-    Foo )`u8 x,`, //
-}
-// c
-// " ++ [128512]%N ++ runes_of_ascii " emoji
-packet  repeatCount	{
-@tag( 7
-    // `tick` ""quote"" 'q'
-    )
-char[] x_y_z //x
-`it's` , @calculatedFrom(""`tick`"" )repeat o,
-    @lengthOf(
-    pack )
-@lengthOf( u128 ) @lengthOf(stringy	)
-match zchar as MetaDataX { [ ""// no comment"",0 ] // " ++ [27880; 37322]%N ++ runes_of_ascii "
-: options1
-    ,
-    [
-    ""a	b"" ,
-""`tick`""
-    ,""" ++ [233]%N ++ runes_of_ascii "t" ++ [233]%N ++ runes_of_ascii """, 7
-    // trailing space 
-    , 0123456789
-] :	string_
-    , ""a\""b"" :len, ""a\\"" : MetaDataX	, }, u8x
-{ repeat
-chars MetaDataX
-`two words`, repeat Header	len `` , pack { u16
-asx @calculatedFrom(
-    ""`tick`"")
-    //x
-    `line1
-line2` , f64 string_ ,float32 zchar // " ++ [27880; 37322]%N ++ runes_of_ascii "
-@lengthOf(i8i8 )
-, As @lengthOf(
-    //	t
-    _x ) `u8 x,`, } ,int32 roots`doc` , }
-    , } packet As { @lengthOf( leftPad )
-@calculatedFrom(	"""" ) x_y_z
-@lengthOf(
-    i8i8 )	`" ++ [233]%N ++ runes_of_ascii "` , repeat float32 Z9_
-    //	t
-    ,// `tick` ""quote"" 'q'
-pack ,
-    msg_type
-, // `tick` ""quote"" 'q'
-@rightPad // a // b
-(
-'0' )
-// a // b
-// @lengthOf(
-u16 crc ,
-    @lengthOf( chars)	repeat
-x`it's`
-, } packet body/// triple
-{@calculatedFrom(  """ ++ [28040; 24687]%N ++ runes_of_ascii """ ) T @lengthOf(
-    u8x ) , @tag( 3)
-    // packet A { u8 x, }
-    u32
-    u
-//	t
-// @lengthOf(
-@lengthOf(
-    msg_type
-    // c
-    )
-    , @calculatedFrom(
-""" ++ [128512]%N ++ runes_of_ascii """
-)	repeat char[ 10] A // c
-, x{ string o
-, match  Pad // " ++ [27880; 37322]%N ++ runes_of_ascii "
-as rootA { ""packet"" :matchKey } ,u64
-x_y_z ,char[]
-leftPad @lengthOf( float // @lengthOf(
-)
-    , /// triple
-}
-,
-    repeat uint8x falsey	`" ++ [233]%N ++ runes_of_ascii "`, @lengthOf( Z9_ )u8 f32a , @tag( 0123456789 )
-// @lengthOf(
-// `tick` ""quote"" 'q'
-u8 matchKey ``
-, Pad trueish `say ""hi""`
-    ,}
-")).
-Eval vm_compute in ("<<<M4306>>>" ++ check (runes_of_ascii "options
-
-{
-    rootA
-=
-""""BodyLength	=	0123456789 ; roots
-=
-	string
-options1
-	=' '	} 
-root  packet
-int {
-repeat zchar[ 00 
-]
-    Logon
-
-, 
-repeat  uint16 
-    //	t
-    body`// not a comment` , @calculatedFrom( ""a\""b""
-    )repeat string	MetaDataX
-`a\`
-
-    , 
-string 
-lengthOf	`" ++ [28040; 24687; 31867; 22411]%N ++ runes_of_ascii "`
-
-    ,  @tag(
-    3	) trueish	calculatedFrom
-,  //
-} root packet
-i64_  {
-zchar[	007
-] //x
-rootA
-	`" ++ [28040; 24687; 31867; 22411]%N ++ runes_of_ascii "`
-,@leftPad
-	( 
-' '
-	) 
-@calculatedFrom(""a\\"" )@calculatedFrom( 
-    // @lengthOf(
-  ""a\""b""
-
-    )repeat f64 trueish `" ++ [233]%N ++ runes_of_ascii "`
-
-    ,repeat
-
-int {
-    match msg_type
-
-    as 
-asx
-	{ """" :
-    u128
-    ,	[  //
-    	""1""
-,
-
-    //	t
-
-	// trailing space 
-""\" ++ [233]%N ++ runes_of_ascii """
-
-]
-:	options1 
-,
-
-    ""x y""
-
-: 
-u8x 
-,""// no comment"":
-
-BodyLength	, 
-[
-	7
-
-    , ""a\""b""
-
-    ,
-
-    4294967296	]
-    :asx , },
-
-crc @calculatedFrom(
-
-"""" 
-)
-
-,
-// `tick` ""quote"" 'q'
-	match	metadata as
-lengthOf
-
-{[4294967296,  ""a	b""
-    ,
-
-    ""packet""
-
-    , ""// no comment"" ] 
-  // a // b
-: repeatCount 
-	    // c
-      ,
-
-    }
-// @lengthOf(
-,
-	u128{ crc	,
-repeat
-
-    options1  ,
-uint64 BodyLength
-, matchKey `
-` , } ,}
-, @lengthOf(
-	zchar	) int8 
-lengthOf`say ""hi""`, }root
-packet 
-pack {@calculatedFrom( 
-""a	b"") 
-// " ++ [27880; 37322]%N ++ runes_of_ascii "
-
-Pad ,
-    @calculatedFrom(	""packet""	)
-match  u as 
-leftPad  {	[
-	""{,}""
-	] :  // `tick` ""quote"" 'q'
-      A	""{,}"":u128 [
-
-""1"" ,
-007 
-] :
-	a1, 
-[ ""1""
-
-] : 
-Packet
-	4294967296
-
-:i8i8 ,
-00 :  
-      // " ++ [128512]%N ++ runes_of_ascii " emoji
-    	// @lengthOf(
-    	roots
-    ,  
-  //
-  // packet A { u8 x, }
-	}
-,	//
-char[0123456789	]calculatedFrom
-
-`say ""hi""`, uint8 int @calculatedFrom(
-	""a\\""
-)	,	Packet
-
-    pack
-
-    ,  // c
-}
-")).
-Eval vm_compute in ("<<<M189>>>" ++ check (runes_of_ascii "packet i64_ { match
-    BodyLength as u8x {
-[ 0123456789 ]: leftPad ""{,}"" :	lengthOf	,
-007 :	A, [  ""a\""b"" ] :float , //x
-} , @calculatedFrom( // `tick` ""quote"" 'q'
-""" ++ [233]%N ++ runes_of_ascii "t" ++ [233]%N ++ runes_of_ascii """ )// a // b
-body
-u8x
-    , packetx`say ""hi""`, // @lengthOf(
-zchar[
-    42 ]MetaDataX `line1
-line2`
-    ,
-    f32 // @lengthOf(
-matchKey, roots{
-    // " ++ [27880; 37322]%N ++ runes_of_ascii "
-    u128 @lengthOf( T ) , char[
-// " ++ [128512]%N ++ runes_of_ascii " emoji
-// packet A { u8 x, }
-42
-    ]	x_y_z	@calculatedFrom( """" ) ,repeat float64 stringy// " ++ [128512]%N ++ runes_of_ascii " emoji
-`` ,
-    }
-,u16 // @lengthOf(
-metadata
-    `tab	here` ,@rightPad	( '0'
-    // " ++ [128512]%N ++ runes_of_ascii " emoji
-    )
-@tag( 7 )
-// " ++ [27880; 37322]%N ++ runes_of_ascii "
-// " ++ [27880; 37322]%N ++ runes_of_ascii "
-repeat uint16 // @lengthOf(
-x_y_z `say ""hi""`, repeat
-    roots{ // a // b
-Packet {float{ repeat asx , asx
-Foo
-    , }
-,
-    }	,} ,@tag( 42 )//x
-u `line1
-line2` , // `tick` ""quote"" 'q'
-}  packet int { } options {
-    // `tick` ""quote"" 'q'
-    Logon
-    = ""{,}"" ; } packet	As{// packet A { u8 x, }
-@calculatedFrom( // @lengthOf(
-"""" ) @rightPad ( '\x00'
-// " ++ [128512]%N ++ runes_of_ascii " emoji
-//	t
-) @leftPad (
-'0' ) repeat Logon
-f32a	, @lengthOf(
-// a // b
-// a // b
-rootA ) @tag(42 )
-    @lengthOf(
-// " ++ [128512]%N ++ runes_of_ascii " emoji
-//
-u
-//	t
-// a // b
-)repeat o u8x `u8 x,` , @tag( 7) zchar[
-    //x
-    42] asx @lengthOf(
-    trueish ) , @lengthOf( trueish ) int16
-stringy
-,
-zchar f32a
-    `two words` , string u8x@calculatedFrom( ""\n""
-    )  , _x `
-` , @lengthOf( i8i8  ) i64_@lengthOf(
-    uint8x )
-    , uint32 rootA `it's` , }
-")).
-Eval vm_compute in ("<<<M4422>>>" ++ check (runes_of_ascii "// @lengthOf(
-  packet
-	// @lengthOf(
-	  //
-  	chars
-{ repeat
-    leftPad
-{  i64_ , /// triple
-}, BodyLength{ //	t
-    char[
-
-1
-
-]_x`line1
-line2`, }
-,
-
-    @calculatedFrom(
-""" ++ [233]%N ++ runes_of_ascii "t" ++ [233]%N ++ runes_of_ascii """
-) repeat
-    zchar
-    body
-,
-
+    // c49
+char[ // c50a
+  // c50b
+5 // c51a
+  // c51b
+] OrderId // c53a
+  // c53b
+, zchar[ 7 // c56
+] // c57
+Tail // c58a
+  // c58b
+, // c59
+char[] // c60a
+  // c60b
+count // c61
+, // c62a
+  // c62b
+InPrice45 // c63
+{ // c64
+Party , // c66a
+  // c66b
 char[
-
-65535] 
-Foo
-
+    // c67
+1
+    // c68
+]
+    // c69
+Px ,
+    // c71
+} // c72a
+  // c72b
+, } // c74a
+  // c74b
+, // c75a
+  // c75b
+char[ // c76
+12
+    // c77
+]
+    // c78
+price
+    // c79
+, // c80
+int8
+    // c81
+sym // c82
+, // c83
+} packet Reject // c86
+{
+    // c87
+repeat InPrice47 // c89
+{ // c90a
+  // c90b
+Party , // c92a
+  // c92b
+} , // c94a
+  // c94b
+zchar[ // c95a
+  // c95b
+4 // c96
+] // c97
+x // c98
+, // c99
+repeat Ack
+    // c101
+, // c102
+zchar[ // c103a
+  // c103b
+2 // c104a
+  // c104b
+] // c105a
+  // c105b
+Ref ,
+    // c107
+repeat Party
+    // c109
+, // c110a
+  // c110b
+} // c111
+packet Cancel // c113
+{ // c114a
+  // c114b
+Reject ,
+    // c116
+repeat string // c118a
+  // c118b
+f1 ,
+    // c120
+uint16 // c121a
+  // c121b
+OrderId
+    // c122
 ,
-    repeat
-	zchar[
-
-    7 ]repeatCount
-,	@lengthOf(
-
-    Logon 
-)
-    @calculatedFrom(""{,}"" 
-    /// triple
-
-	// `tick` ""quote"" 'q'
-	)//
-		string	//x
-
-float, u8x
-,
-	uint8x
-@calculatedFrom(
-    ""packet""  )
-
-,
-
-    } //x
-MetaData 
-T{ u16 zchar  // " ++ [128512]%N ++ runes_of_ascii " emoji
-    	`tab	here`
-	,
-    float64 x
-	,// packet A { u8 x, }
-	i32
-Packet  ``, 	 // `tick` ""quote"" 'q'
-	  zchar[  255
-    //
-    /// triple
-  ]
-crc
-        // a // b
-  , calculatedFrom
-
-u128
-,zchar[ 
-1 
-/// triple
-    	// a // b
-  ] metadata  `
-`
-, 
-}
-	packet
-	uint8x  {
-Header{ 
-uint16
-
-    metadata  @lengthOf( MetaDataX  )
-	`line1
-line2` , }  //x
-    , 
-    // " ++ [27880; 37322]%N ++ runes_of_ascii "
-// @lengthOf(
-		metadata
-repeatCount,
-    repeat  x_y_z
-, chars
-
-    A	, packetx
-@calculatedFrom( 
-
-// a // b
-    ""a\\""
-
-    )
-    `` ,  char[  007  ]a1
-    @lengthOf(
-	A
-)
-
-`" ++ [28040; 24687; 31867; 22411]%N ++ runes_of_ascii "`, /// triple
-
-}
-	options
-{	matchKey = 
-float32  ; 
-}  packet f32a {
-@lengthOf( 
-repeatCount
-) 	 // @lengthOf(
-    @tag(
-42
-) 	 // `tick` ""quote"" 'q'
-
-	float32 u128
-,
-}
-
+    // c123
+u8 // c124
+Acct , // c126a
+  // c126b
+int8
+    // c127
+msgKind , } // c130
+root packet // c132
+Fill
+    // c133
+{ u8 // c135a
+  // c135b
+count , char[] // c138
+tag7 ,
+    // c140
+zchar[ // c141a
+  // c141b
+7 ]
+    // c143
+Acct // c144a
+  // c144b
+, // c145a
+  // c145b
+u32 // c146
+OrderId ,
+    // c148
+u32 Note
+    // c150
+@lengthOf( // c151a
+  // c151b
+Body // c152
+) // c153
+, // c154a
+  // c154b
+match
+    // c155
+OrderId // c156
+as // c157a
+  // c157b
+Body
+    // c158
+{ // c159a
+  // c159b
+106
+    // c160
+: // c161
+Cancel
+    // c162
+, 196
+    // c164
+: // c165
+Reject // c166
+, // c167
+74 // c168
+: Party ,
+    // c171
+75 : // c173
+Ack
+    // c174
+, } , // c177a
+  // c177b
+} // c178a
+  // c178b
 ")).
-Eval vm_compute in ("<<<M275>>>" ++ check (runes_of_ascii "options { u =""a\""b""
-//	t
-//
-;
-    Z9_ =""// no comment"" ; tag
-    // " ++ [27880; 37322]%N ++ runes_of_ascii "
-    =7 } root packet
-    // trailing space 
-    As { }
-packet Header { @lengthOf(
-    Foo )  rootA
-@calculatedFrom( ""\" ++ [233]%N ++ runes_of_ascii """ ) , @calculatedFrom( ""CRC32""// a // b
-)
-    float64 crc
-,  repeat char[ // packet A { u8 x, }
-007
-] Logon , //
-@tag( 7
-    )
-//
-// c
-@calculatedFrom( ""{,}"" ) @lengthOf( stringy
-) match //	t
-A as
-// " ++ [128512]%N ++ runes_of_ascii " emoji
-// `tick` ""quote"" 'q'
-f32a {
-    // `tick` ""quote"" 'q'
-    [""a\\""
-,	1 , ""CRC32"" , 007 ,	""a	b"" , ""\" ++ [233]%N ++ runes_of_ascii """ ] :trueish, 4294967296
-    :
-// c
-//x
-u8x ,//
-}  ,
-@tag(
-255 ) @lengthOf( u8x
-    )
-@calculatedFrom( ""x y""
-    ) pack { uint16 uint8x
-    ,
-    }
-, match
-leftPad as
-asx {""{,}"" : T 007
-    //	t
-    : // @lengthOf(
-_x
-    1  : options1
+Eval vm_compute in ("<<<M3537>>>" ++ check (runes_of_ascii "// top
+options
+    // c0
+{ // c1
+StringPrefixLenType // c2
+= u16 // c4a
+  // c4b
+; ArrayPrefixLenType
+    // c6
+=
+    // c7
+u32
+    // c8
+; // c9a
+  // c9b
+FixedStringPadFromLeft
+    // c10
+= // c11
+false // c12a
+  // c12b
+; // c13
+FixedStringPadChar // c14a
+  // c14b
+=
+    // c15
+'0' // c16a
+  // c16b
+; // c17
+}
+    // c18
+packet Logout { // c21
+f64 // c22a
+  // c22b
+f1 // c23
+, // c24a
+  // c24b
+i16
+    // c25
+Note // c26a
+  // c26b
+, @rightPad // c28
+( // c29
+'\x00' // c30
+) char[ // c32
+11 // c33
+]
+    // c34
+Flags
+    // c35
+, } // c37a
+  // c37b
+packet Cancel // c39
+{
+    // c40
+float64 msgKind // c42
 ,
-    [ 42	,007]// a // b
-:calculatedFrom
-, """ ++ [233]%N ++ runes_of_ascii "t" ++ [233]%N ++ runes_of_ascii """ :
-    lengthOf } ,
-    u8x {int64 charz
-`line1
-line2`,
-} , repeat
-    //x
-    Header BodyLength `
-`  ,
-@rightPad  ( // `tick` ""quote"" 'q'
-'\x00' ) @lengthOf( tag )
-    match o // trailing space 
-as
-    uint8x {
-[ 255 ] :
-_x ,1 :
-    matchKey ,
-// " ++ [128512]%N ++ runes_of_ascii " emoji
-//x
-65535
+    // c43
+} // c44a
+  // c44b
+packet
+    // c45
+Reject { // c47
+InQty43 // c48a
+  // c48b
+{ // c49a
+  // c49b
+float32 // c50
+sym
+    // c51
+, char[ // c53a
+  // c53b
+10
+    // c54
+] // c55a
+  // c55b
+Tail // c56a
+  // c56b
+, uint8 // c58a
+  // c58b
+venue // c59
+, // c60a
+  // c60b
+uint16 // c61a
+  // c61b
+f1
+    // c62
+, // c63
+char[ 9 // c65
+] Acct // c67a
+  // c67b
+,
+    // c68
+}
+    // c69
+, // c70a
+  // c70b
+} // c71
+packet // c72a
+  // c72b
+Trade // c73
+{ // c74a
+  // c74b
+char[] x , zchar[ // c78
+6
+    // c79
+] Note ,
+    // c82
+repeat // c83
+Reject
+    // c84
+, // c85
+} root // c87
+packet Order // c89a
+  // c89b
+{ // c90a
+  // c90b
+Cancel // c91a
+  // c91b
+, Logout
+    // c93
+, // c94
+u64
+    // c95
+Acct
+    // c96
+,
+    // c97
+u32 OrderId , match // c101
+OrderId // c102
+as // c103
+Body
+    // c104
+{
+    // c105
+[ // c106
+127 // c107a
+  // c107b
+, // c108
+70 ]
+    // c110
+: // c111a
+  // c111b
+Reject // c112a
+  // c112b
+, // c113
+177 : // c115a
+  // c115b
+Trade // c116
+,
+    // c117
+58 // c118a
+  // c118b
+: // c119a
+  // c119b
+Logout // c120
+,
+    // c121
+75 // c122
 :
-// c
-// @lengthOf(
-tag
-,  0123456789: zchar,
-""a\\"" :metadata
-    ,
-    }	, }
+    // c123
+Cancel ,
+    // c125
+} // c126
+, u32 // c128a
+  // c128b
+Tail // c129
+@calculatedFrom(
+    // c130
+""CRC32"" // c131
+) // c132
+, } // c134
 ")).
-Eval vm_compute in ("<<<M1115>>>" ++ check (runes_of_ascii "packet tag { zchar[
-65535]
-    T
-, match
-    i64_
-    as chars { 007 :asx	,
-    [ ""a\""b""
-,  ""a\""b"" ,
-    7 // a // b
-,0,
-    ""\" ++ [233]%N ++ runes_of_ascii """ , ""abc"", ""x y"" // trailing space 
-, 0
-] : u8x 7
-    :// c
-leftPad 7
-    : body
-    , ""`tick`""
-:// `tick` ""quote"" 'q'
-lengthOf ,} ,
-@leftPad(
-)
-@rightPad(
-)
-repeat
-    //
-    i64_ charz
-, repeat //	t
-charz u8x ,  repeat float32 uint8x , } packet falsey { } packet // trailing space 
-Z9_ { repeat u { int32 i8i8 , // " ++ [128512]%N ++ runes_of_ascii " emoji
-repeat BodyLength { match string_ as charz{""\" ++ [233]%N ++ runes_of_ascii """
-//
-/// triple
-:  As}, //x
-i64_
-    @calculatedFrom( ""packet"" ) ,} ,
-    //x
-    } ,asx {//x
-char[4294967296]
-    pack , // @lengthOf(
-}, @rightPad ( '0'
-)
-falsey repeatCount
-// c
-// " ++ [27880; 37322]%N ++ runes_of_ascii "
-,
-    @tag(
-    // packet A { u8 x, }
-    0	)uint16 chars `" ++ [233]%N ++ runes_of_ascii "`
-,
-x@lengthOf( asx
-/// triple
+Eval vm_compute in ("<<<M180>>>" ++ check (runes_of_ascii "// @lengthOf(
+MetaData
+zchar {string
+o
+`crlf
+line`	, char[]
+pack // c
+`crlf
+line` , char[]
+    // trailing space 
+    Foo,
+} options { stringy =
+""`tick`""
+    } packet leftPad {
+    packetx
+    @lengthOf(  roots), @lengthOf(int
 // a // b
-) `line1
-line2`, repeat options1
-a1 ,
-    @tag(
-    // @lengthOf(
-    42
-/// triple
-// packet A { u8 x, }
-)	@leftPad
-    ( '\x00')match T as x { [ ""a\\"" ] : falsey
-} // `tick` ""quote"" 'q'
-, x ,
-trueish i8i8
-,}
-MetaData T
-{ MetaDataX i8i8 `it's` ,
-    } // `tick` ""quote"" 'q'")).
-Eval vm_compute in ("<<<M1326>>>" ++ check (runes_of_ascii "MetaData
-// " ++ [128512]%N ++ runes_of_ascii " emoji
-// trailing space 
-o { char[
-255 ] // @lengthOf(
-BodyLength, } packet
-    crc
-    { @tag( 7 ) calculatedFrom @lengthOf(Header ) ,
-    len
-{ float {  i32 T, stringy string_
-    // c
-    , char[ // " ++ [27880; 37322]%N ++ runes_of_ascii "
-65535 ] Packet
-@lengthOf( a1 ) ``
-    , falsey {	u16 Logon  `{ , }` , } ,	}
-, repeat /// triple
-falsey , repeat u8 Logon,} , zchar[ 65535] lengthOf @lengthOf(
-asx  )`line1
-line2` , @rightPad ('0'
-    ) int16 f32a ,@rightPad ( // packet A { u8 x, }
-'\x00' )char[]
-len
+// " ++ [27880; 37322]%N ++ runes_of_ascii "
+) @calculatedFrom( ""a\""b"" )
+    @calculatedFrom( """ ++ [28040; 24687]%N ++ runes_of_ascii """ ) int32
+MetaDataX `" ++ [233]%N ++ runes_of_ascii "` // " ++ [27880; 37322]%N ++ runes_of_ascii "
+, u8 int// `tick` ""quote"" 'q'
+,
+@lengthOf( options1
+    ) repeat u8 BodyLength// `tick` ""quote"" 'q'
+,
+    @tag( 1
+    ) Logon
+    ,repeat int32 u8x
+`say ""hi""`, match int
+as
+charz	{ ""abc"" : roots } ,string_ {zchar	@lengthOf( calculatedFrom ) ``
+,
+} , } root packet lengthOf {
+@tag( 4294967296 )A // packet A { u8 x, }
+@lengthOf( i64_ )`doc` , body@lengthOf( lengthOf ) `it's`
     // packet A { u8 x, }
-    `" ++ [28040; 24687; 31867; 22411]%N ++ runes_of_ascii "`, match string_ as string_
+    , zchar[ 10 ] // " ++ [27880; 37322]%N ++ runes_of_ascii "
+i8i8, @calculatedFrom( """ ++ [233]%N ++ runes_of_ascii "t" ++ [233]%N ++ runes_of_ascii """	) i64 int `u8 x,`,	repeat trueish { string  options1 , zchar[
+    0123456789 ]_x
+`tab	here` ,
+Pad
+    { repeat string repeatCount , repeat string _x , Packet
+@lengthOf( roots ) `
+`
+    , string crc@calculatedFrom(""abc""),
+} , match i8i8 as  string_ {// c
+[ ""it's""
+]
+:
+options1 ,
+//
+// @lengthOf(
+""a	b"":
+string_ , [
+""a	b""
+, 00 ] //	t
+: // `tick` ""quote"" 'q'
+metadata  ,
+    0 :	o
+    ""\" ++ [233]%N ++ runes_of_ascii """
+    : Pad // packet A { u8 x, }
+,}
+,} , char[7 ]  i8i8 `tab	here`
+    , roots { repeat uint8 _x`tab	here`,	}  ,
+    repeat int64 f32a	,
+match asx
+as calculatedFrom { 65535 : asx
+// trailing space 
+//x
+, [ 1
+] :  uint8x,
+42 :x
+[ ""x y"" , ""1"",""`tick`"" , ""1"" ,
+""1""
+,	""a	b"" ]
+    :
+    MetaDataX }
+,} MetaData
+chars
+    { }")).
+Eval vm_compute in ("<<<M484>>>" ++ check (runes_of_ascii "packet stringy
+//	t
+/// triple
+{ @tag(0123456789 )
+match matchKey as
+    // @lengthOf(
+    i64_ { 7// a // b
+:
+    // " ++ [27880; 37322]%N ++ runes_of_ascii "
+    Header
+    [ /// triple
+""a\""b"", 65535 ]:  stringy ,  ""abc"": // a // b
+options1 ,0123456789 :
+u ,
+""1"" :lengthOf , }
+    ,repeat uint64 uint8x	`two words`
+, @rightPad ( ) @rightPad ('0' )repeat As
+body`doc`
+    //
+    ,repeat // @lengthOf(
+zchar {len, }  , @calculatedFrom(
+    ""abc"" )	@calculatedFrom( ""1""
+)@rightPad (
+    '0') char[]
+    zchar @lengthOf(
+u ) `line1
+line2`
+, Header @calculatedFrom(
+// c
+// packet A { u8 x, }
+""CRC32"" )
+`{ , }`,
+u64 A `tab	here`
+,@leftPad ( ) @tag( 10) @tag( 4294967296)
+o `doc` , uint8	a1
     /// triple
-    { [ ""a\\"" ,
-10 , 007 ,//	t
-0123456789]	:As
-, [ ""`tick`"" ] : //
-metadata	, ""\n"" :
-falsey,// `tick` ""quote"" 'q'
-[
-3 , // " ++ [27880; 37322]%N ++ runes_of_ascii "
-""" ++ [233]%N ++ runes_of_ascii "t" ++ [233]%N ++ runes_of_ascii """ , //	t
-""CRC32"" ]
-    : lengthOf ,00 :	x_y_z ,  }  , packetx{
-    repeat a1 `it's`// packet A { u8 x, }
-,stringy
-`{ , }`
-    ,match
-    T as
-MetaDataX// @lengthOf(
-{ ""CRC32""
-:	lengthOf
-    } , } ,	} MetaData  tag  { //x
-}
-packet Z9_ {  i16
-rootA
+    , repeat f64 leftPad ,
+} MetaData _x
+{ rootA float
+    `tab	here` , tag
+    o`crlf
+line`
+,} packet Pad {
+    match MetaDataX as
+A { [
+    4294967296 // a // b
+, 42 ,""`tick`"" ,0
+    ,10	,  1
+, 10
+, 3 ]
+    :
 // packet A { u8 x, }
 // @lengthOf(
-`
-`// " ++ [27880; 37322]%N ++ runes_of_ascii "
-, //	t
-}")).
-Eval vm_compute in ("<<<M502>>>" ++ check (runes_of_ascii "  root packet  roots { @tag(
-    0123456789) repeat As msg_type ,
-    roots
-@calculatedFrom(	""abc""),@rightPad (
-)// " ++ [27880; 37322]%N ++ runes_of_ascii "
-Pad {  int32
-rootA@calculatedFrom(// c
-""1"" )
-, repeat int
-    float `say ""hi""`
-    ,// c
-zchar[
-    65535 ]  i8i8 @calculatedFrom(""a\\""	)// c
+A  ,""packet"" : Packet }
+    //x
+    , @calculatedFrom( ""CRC32"" ) // @lengthOf(
+crc // a // b
+@lengthOf(// packet A { u8 x, }
+leftPad )`say ""hi""` , BodyLength options1 `say ""hi""`
 ,
-    } , // `tick` ""quote"" 'q'
-@calculatedFrom(
-    ""1"" // `tick` ""quote"" 'q'
-)
-i8i8 @lengthOf( x),@tag(7 )
-    match T as repeatCount
-{ ""a\\"" :
-o [//
-""""
-, // @lengthOf(
-""it's""
-]	:
-    i64_ , 10 :
-    trueish , }// @lengthOf(
-,
-    Z9_
-, // a // b
-@calculatedFrom(
-"""" ) @leftPad  (' ' )  f32 zchar @lengthOf( charz ) , @leftPad
-// " ++ [27880; 37322]%N ++ runes_of_ascii "
-// c
-(
-    ) falsey @lengthOf(
-BodyLength )
+    repeat len
+    // " ++ [128512]%N ++ runes_of_ascii " emoji
+    {
+    // a // b
+    char[]
+Header
+    // `tick` ""quote"" 'q'
     ,
-// a // b
-// " ++ [27880; 37322]%N ++ runes_of_ascii "
-} packet
-    leftPad { // trailing space 
-u8 //x
-msg_type@calculatedFrom(""packet"")
-`u8 x,`
-    , @lengthOf( chars ) char[]  Packet
-, //
-@leftPad
-('0' ) int64 As ,
-    char[]  Packet
-// packet A { u8 x, }
-//
-, // a // b
-@calculatedFrom(  ""\n"" ) x @calculatedFrom( ""\n""
-    ) , // `tick` ""quote"" 'q'
-}")).
-Eval vm_compute in ("<<<M3908>>>" ++ check (runes_of_ascii "packet body {
-    match u as f32a {
-        ""// no comment"" : float,
-    },
-    // trailing space 
-    float32 int,
-    char[] tag `u8 x,`,
-    @lengthOf(body)
-    repeat i64_ crc,
-    @leftPad('0')
-    float64 zchar,// packet A { u8 x, }
-    @lengthOf(A)
-    @leftPad()
-    @lengthOf(int)
-    //
-    crc @calculatedFrom(""1""),
+i16 rootA , string
+uint8x @lengthOf( Header  )
+`it's` , repeat u16 x_y_z`
+`, } ,	} packet As { x MetaDataX ,
 }
-
-root packet body {
-    @lengthOf(T)
-    repeat u128 `line1
-    line2`,
-    string BodyLength,
-    @calculatedFrom(""x y"")
-    char[] zchar @calculatedFrom(""a\""b"") `" ++ [28040; 24687; 31867; 22411]%N ++ runes_of_ascii "`,
-    falsey trueish,/// triple
-    @rightPad('\x00')
-    @lengthOf(As)
-    @tag(4294967296)
-    repeat char[] uint8x,
-    packetx,
-    @tag(7)
-    //
-    i64 roots @calculatedFrom(""" ++ [233]%N ++ runes_of_ascii "t" ++ [233]%N ++ runes_of_ascii """) `// not a comment`,
-    @calculatedFrom(""x y"")
-    /// triple
-    f64 float @lengthOf(Packet),
-    @tag(4294967296)
-    u32 lengthOf @calculatedFrom(""\" ++ [233]%N ++ runes_of_ascii """),
-    @tag(10)
-    Foo,
-}
-
-packet leftPad {
-}
-
-options {
-    i8i8 = zchar[7]
-}")).
-Eval vm_compute in ("<<<M3611>>>" ++ check (runes_of_ascii "packet int {
-    @tag(7)
-    BodyLength {
-        // @lengthOf(
-        float32 f32a,
-        char[255] u8x @lengthOf(Z9_) `line1
-        line2`,
-        repeat char[65535] tag `" ++ [233]%N ++ runes_of_ascii "`,
-        match Header as int {
-            """ ++ [128512]%N ++ runes_of_ascii """ : body,
-            [
-                00, 4294967296, 255, """ ++ [233]%N ++ runes_of_ascii "t" ++ [233]%N ++ runes_of_ascii """, """ ++ [128512]%N ++ runes_of_ascii """,
-                ""packet""
-            ] : int,
-            [0, ""a	b""] : Z9_,
-            [65535] : tag,
-            /// triple
-            """ ++ [233]%N ++ runes_of_ascii "t" ++ [233]%N ++ runes_of_ascii """ : options1,
-        },
-    },
-    zchar[255] MetaDataX @lengthOf(Z9_) `crlf
-    line`,
-    stringy {
-        repeat string A,// packet A { u8 x, }
-        crc {
-            zchar[1] uint8x,
-        },
-        uint16 Packet @calculatedFrom(""a	b""),
-        len @calculatedFrom(""a	b"") `two words`,
-    },
-    zchar[255] As ``,
-    i16 calculatedFrom,
-    @tag(42)
-    repeat x_y_z `two words`,
-    uint8 lengthOf,
-    @tag(0)
-    u128,
-}")).
-Eval vm_compute in ("<<<M3518>>>" ++ check (runes_of_ascii "  options
-
-{ 
-LittleEndian
-
-    = true	; StringPrefixLenType=  u64 ; ArrayPrefixLenType
-=u8 ;
-FixedStringPadChar
-    ='0'
+")).
+Eval vm_compute in ("<<<M4242>>>" ++ check (runes_of_ascii "
+// top
+  	options
+    // c0
+    { 	 // c1
+  LittleEndian 
+    // c2
+		=// c3
+false
 
     ;
+StringPrefixLenType 	 // c6a
+		// c6b
+=
+    // c7
+  	u8
+    // c8
+      ;// c9a
+// c9b
+ArrayPrefixLenType =  // c11
+		u16
+    ; 
+    // c13
+  FixedStringPadFromLeft
 
-} packet
-Reject
+=  // c15a
+  // c15b
 
-    {
-    i32 
-Ref
+  false// c16a
+	// c16b
+  ; // c17a
+	// c17b
+	  }  // c18
+		packet// c19a
+  // c19b
+
+Heartbeat{ // c21a
+		// c21b
+	u8
+// c22
+  seqNo 	 // c23a
+  	// c23b
+    , 	 // c24a
+	// c24b
+    @rightPad ( '\x00'// c27
+		)	char[
+// c29
+		8// c30a
+
+	// c30b
+
+	]// c31
+  x
+        // c32
+	  ,// c33
+  }  // c34
+  root  // c35
+	  packet  Trade // c37
+
+  {
+// c38
+repeat 	 // c39
+		Heartbeat// c40
+  ,
+
+float32
+        // c42
+OrderId  // c43a
+
+	// c43b
+	,	// c44
+
+  i64
+    // c45
+      Acct , // c47a
+  // c47b
+  u16
+    // c48
+      Qty	// c49a
+      // c49b
+, // c50
+u16// c51a
+  	// c51b
+  clOrdID
+// c52
+  ,	// c53a
+    // c53b
+
+match	clOrdID // c55
+
+	as// c56a
+
+// c56b
+
+Body 
+	    // c57
+	{ 
+
+    // c58
+  131 // c59a
+      // c59b
+    : Heartbeat
+
+, // c62a
+
+// c62b
+    	},
+        // c64
+	  u16	// c65a
+  // c65b
+	sym 	 // c66
+  @calculatedFrom( 	 // c67a
+    // c67b
+	""CRC32"" // c68
+  ) // c69a
+	  // c69b
+
+,
+	    // c70
+	  }")).
+Eval vm_compute in ("<<<M371>>>" ++ check (runes_of_ascii "MetaData i8i8
+    // trailing space 
+    { Pad rootA
+`tab	here` //
+, x_y_z
+metadata
+,zchar[ 255] x_y_z `doc` , metadata i8i8 , uint8x
+    leftPad
+    `say ""hi""` , int32
+charz
+    `" ++ [28040; 24687; 31867; 22411]%N ++ runes_of_ascii "` , } packet
+len {  char[
+    255 ]
+f32a//x
+@calculatedFrom(
+""a	b"") `// not a comment` ,f64 u8x
+//
+// `tick` ""quote"" 'q'
+,
+options1
+{string charz `u8 x,` ,string_ // packet A { u8 x, }
+@calculatedFrom( // " ++ [27880; 37322]%N ++ runes_of_ascii "
+""a	b""
+) , repeat falsey {a1 `it's`  , stringy
+@lengthOf( Foo
+    )
+,	repeat  zchar[ 10  ]Logon
+`line1
+line2` ,  uint16 repeatCount @lengthOf( options1 )
+    `doc`
+,	} , repeat //x
+u packetx, } , falsey
+x_y_z, char[]matchKey
+`u8 x,`
+, } packet float
+{ @lengthOf( Foo ) u16 a1 `crlf
+line` // `tick` ""quote"" 'q'
+,
+    // `tick` ""quote"" 'q'
+    @leftPad( )
+@lengthOf( string_// `tick` ""quote"" 'q'
+)
+    match
+asx as lengthOf{ """"
+: f32a , }
+,roots {
+f32 A `a\` , i8 trueish @lengthOf(rootA )
+    ,}
     ,
-repeat 
-f64 OrderId
-
+options1
+    @lengthOf(_x
+    )
+    , /// triple
+@lengthOf( asx// `tick` ""quote"" 'q'
+)
+    charz
+    // " ++ [27880; 37322]%N ++ runes_of_ascii "
     ,
-repeat 
-InNote12{ 
+    zchar[ 10 ] a1
+    @calculatedFrom(
+    ""// no comment"")
+`say ""hi""`
+, //x
+uint16 x @calculatedFrom( ""a\\"" )	,}")).
+Eval vm_compute in ("<<<M741>>>" ++ check (runes_of_ascii "options // packet A { u8 x, }
+{// @lengthOf(
+roots
+= false a1
+    = '0' // trailing space 
+; leftPad =true ;
+// a // b
+// " ++ [27880; 37322]%N ++ runes_of_ascii "
+Logon
+=
+    ""a	b""
+    // " ++ [128512]%N ++ runes_of_ascii " emoji
+    }
+    root packet	metadata
+    // packet A { u8 x, }
+    { tag @lengthOf( string_
+) `it's` , @leftPad (
+    ' '
+    ) @lengthOf(	trueish
+// a // b
+//
+)	@lengthOf(/// triple
+A )
+int64
+Packet
+@calculatedFrom( """" ) `
+`, u
+    f32a`` ,@calculatedFrom( ""abc""
+) @tag(255 )char[]
+//
+// a // b
+Logon @calculatedFrom(	""\" ++ [233]%N ++ runes_of_ascii """) , // trailing space 
+repeat char[ 7
+    ]a1
+    ,
+    char[] pack
+`u8 x,`
+    ,repeat
+    calculatedFrom `tab	here` , @tag(  1
+    ) u32 options1 , }options
+{ i8i8 =  4294967296 } packet // c
+roots {repeat charz x_y_z
+    , } packet
+msg_type  {
+@lengthOf( tag // c
+)
+i32
+Pad`" ++ [28040; 24687; 31867; 22411]%N ++ runes_of_ascii "` ,i64
+a1 ,metadata
+{repeat int8 float //	t
+, // `tick` ""quote"" 'q'
+Pad
+_x,
+f32 //
+pack ,
+// a // b
+// " ++ [27880; 37322]%N ++ runes_of_ascii "
+} ,
+    i8 repeatCount  , char
+matchKey , repeat trueish `u8 x,` ,
+    o // " ++ [128512]%N ++ runes_of_ascii " emoji
+leftPad ,
+char[] pack `it's` ,// c
+As{uint32  rootA @calculatedFrom(""it's"" ) `
+`, }
+,
+    // c
+    }")).
+Eval vm_compute in ("<<<M3210>>>" ++ check (runes_of_ascii "// top
+root
+    // c0
+packet // c1a
+  // c1b
+msg_type // c2a
+  // c2b
+{ // c3
+i64 // c4
+options1 // c5a
+  // c5b
+,
+    // c6
+@lengthOf( // c7a
+  // c7b
+f32a // c8
+) // c9
+repeat // c10
+uint16
+    // c11
+Foo
+    // c12
+, // c13a
+  // c13b
+@calculatedFrom(
+    // c14
+""x y""
+    // c15
+) // c16a
+  // c16b
+repeat int64 // c18a
+  // c18b
+pack // c19a
+  // c19b
+, // c20a
+  // c20b
+@leftPad // c21
+(
+    // c22
+' '
+    // c23
+) // c24a
+  // c24b
+uint8
+    // c25
+Foo , }
+    // c28
+packet rootA // c30a
+  // c30b
+{ // c31
+f32a // c32a
+  // c32b
+x
+    // c33
+`two words` // c34
+, char // c36
+asx // c37a
+  // c37b
+@lengthOf(
+    // c38
+falsey // c39a
+  // c39b
+) // c40a
+  // c40b
+`u8 x,` // c41a
+  // c41b
+, // c42
+@lengthOf( i64_
+    // c44
+)
+    // c45
+uint16 // c46
+chars // c47a
+  // c47b
+, // c48
+@tag( // c49a
+  // c49b
+0 // c50a
+  // c50b
+) string
+    // c52
+_x
+    // c53
+@calculatedFrom(
+    // c54
+""abc""
+    // c55
+) // c56a
+  // c56b
+`// not a comment`
+    // c57
+, // c58
+} // c59a
+  // c59b
+")).
+Eval vm_compute in ("<<<M1090>>>" ++ check (runes_of_ascii "
+options{ body = ""it's""
+; //
+Z9_ = string ;
+}
+    //x
+    packet
+x
+{repeat u128 { char[]u `a\`, } , @leftPad
+(  ' ' ) @tag(
+    00 ) @rightPad (
+    '0' )  tag ,repeat f64
+    // a // b
+    float, repeat string o ,repeat int16  float
+    ,
+@calculatedFrom( ""it's"" ) @rightPad ( '\x00')@lengthOf(
+lengthOf // " ++ [128512]%N ++ runes_of_ascii " emoji
+) f32
+    i8i8 ,
+    repeat f32 tag `// not a comment` ,
+@tag(
+// trailing space 
+/// triple
+42// trailing space 
+)x `" ++ [233]%N ++ runes_of_ascii "`
+    ,
+@lengthOf(
+Pad )
+    char[4294967296] repeatCount
+`` // c
+,
+@lengthOf( pack
+) @tag(
+    007  )	uint32 leftPad
+,
+    } // trailing space 
+root	packet int
+    { @tag( 10 ) Packet // `tick` ""quote"" 'q'
+@lengthOf(	MetaDataX ) , @rightPad
+( '0' ) char[] MetaDataX @calculatedFrom( ""{,}""
+)  `it's` , @tag(
+0) // `tick` ""quote"" 'q'
+@lengthOf(i64_
+)
+BodyLength,
+@tag(
+4294967296 ) repeat string Logon
+    `" ++ [233]%N ++ runes_of_ascii "`/// triple
+, @lengthOf( chars	)
+    @tag(
+10 ) @calculatedFrom( ""\" ++ [233]%N ++ runes_of_ascii """)char[] A @lengthOf( _x
+    ),
+    }
+")).
+Eval vm_compute in ("<<<M493>>>" ++ check (runes_of_ascii "packet
+    chars {// c
+string // " ++ [27880; 37322]%N ++ runes_of_ascii "
+metadata , i32 u8x @calculatedFrom( ""`tick`"" ) ,
+    repeat char[] stringy
+,
+char[ 10 ] pack
+    `u8 x,` // a // b
+,o ,
+falsey  @calculatedFrom(
+    //
+    ""`tick`""// c
+)
+    `it's`,
+    @leftPad
+// `tick` ""quote"" 'q'
+// a // b
+( )u32 body `u8 x,`,	@calculatedFrom(""packet"" // " ++ [128512]%N ++ runes_of_ascii " emoji
+)  char metadata
+`// not a comment`,
+    // " ++ [27880; 37322]%N ++ runes_of_ascii "
+    @lengthOf( A )
+    float64 _x @lengthOf(
+Header
+// " ++ [27880; 37322]%N ++ runes_of_ascii "
+// trailing space 
+) , body ,}
+    packet Header// trailing space 
+{ falsey
+// c
+// c
+,
+    match trueish as lengthOf { ""packet"" : i8i8 ""x y""  :
+falsey [
+""\" ++ [233]%N ++ runes_of_ascii """
+    ]: zchar	, 00 :
+    float ,
+""\n""	: f32a	, } , string A `two words`  ,repeat char[ 0
+    ] Z9_
+// c
+//
+`two words`,repeat Z9_ x , char
+    // `tick` ""quote"" 'q'
+    trueish,}MetaData x_y_z
+    { float32  x `a\` ,u128 i64_`a\`,
+    x_y_z trueish
+, u16 i64_ , }root
+packet pack { }options  { msg_type = 007 ; }")).
+Eval vm_compute in ("<<<M376>>>" ++ check (runes_of_ascii "packet options1 { repeat  matchKey `doc` , char[] string_
+    // " ++ [27880; 37322]%N ++ runes_of_ascii "
+    `
+`, // packet A { u8 x, }
+uint16 T , repeatCount
+    _x
+    ,} packet msg_type
+    { @lengthOf( Pad
+    )
+asx @calculatedFrom(
+    ""\" ++ [233]%N ++ runes_of_ascii """) ,  @tag( 4294967296
+) Logon `a\`,@tag( 0
+    )
+crc  @lengthOf(charz// " ++ [128512]%N ++ runes_of_ascii " emoji
+) `u8 x,`
+, char[	0	] f32a // " ++ [128512]%N ++ runes_of_ascii " emoji
+,  u8
+    A `line1
+line2`,Z9_ u `{ , }`
+, repeat uint8x `" ++ [28040; 24687; 31867; 22411]%N ++ runes_of_ascii "`	, int8 Packet@calculatedFrom( ""{,}""
+) ,
+    // packet A { u8 x, }
+    } packet A {
+// trailing space 
+// trailing space 
+@tag( 3)@tag(
+    /// triple
+    1
+    )
+u16 A// c
+, @tag(1 )
+match
+//
+// @lengthOf(
+roots as
+pack{ // c
+[
+    ""CRC32"" ] :
+i8i8
+""a\\""
+    : trueish , [ ""{,}"",	""" ++ [28040; 24687]%N ++ runes_of_ascii """ ] :
+    falsey
+    // `tick` ""quote"" 'q'
+    } // a // b
+, @rightPad// packet A { u8 x, }
+( ' ') int16 Packet `
+` , // `tick` ""quote"" 'q'
+repeat zchar[1
+] Pad  , // a // b
+}
+")).
+Eval vm_compute in ("<<<M855>>>" ++ check (runes_of_ascii "MetaData Logon {int x `u8 x,` , i16 calculatedFrom `say ""hi""` , trueish x_y_z `// not a comment`	, }
+options {len  = true	;} packet
+crc {
+@lengthOf( matchKey ) repeat  body
+{ uint64 chars
+    , match
+Packet as
+// " ++ [27880; 37322]%N ++ runes_of_ascii "
+// c
+float
+    {""// no comment"" :
+// packet A { u8 x, }
+// packet A { u8 x, }
+calculatedFrom	, } , u64 body  , i8i8
+lengthOf `doc`
+    , } , repeat // @lengthOf(
+o,
+match f32a
+    as int// `tick` ""quote"" 'q'
+{ 255 : u8x// c
+,""x y""	: As , ""\" ++ [233]%N ++ runes_of_ascii """ // packet A { u8 x, }
+:
+    _x 0 : _x ,
+    ""1""
+:
+uint8x
+    // trailing space 
+    , }
+// " ++ [128512]%N ++ runes_of_ascii " emoji
+//	t
+,match	falsey	as float  { [ ""`tick`"" ]:
+string_ , 10
+:  u8x ,"""" : crc// @lengthOf(
+,
+    /// triple
+    0
+: rootA// trailing space 
+, ""abc""  : i64_
+, } , @rightPad
+( ' ' ) repeat float32	o // trailing space 
+`// not a comment` ,o As `a\` ,	}
+
+")).
+Eval vm_compute in ("<<<M3527>>>" ++ check (runes_of_ascii "
+
+  options {	LittleEndian
+=
+true
+;
+StringPrefixLenType
+=
+    u64
+	;ArrayPrefixLenType=
+
+u8 
+; FixedStringPadChar
+
+=
+
+'0' 
+; } packet
+    Reject
+	{ i32 Ref, repeat
+
+    f64 OrderId  ,  repeat InNote12	{
 u8
 pad0
 ,  } ,
-	@leftPad  (
+    @leftPad( 
 ' '
+)
+	char[
+6 ]  count ,
+	}
+packet Logout	{
+    zchar[
+6
+    ]Tail
+	, repeat string venue
+,
 
-    )
-char[6] count
-	,
-}
-
+}	packet
+Cancel
+	{ 
+u64	count,repeat char[
+	5 ]lastPx
+    ,i64  Tail , repeat InF140	{ repeat 
+Logout
+	,  repeat Reject ,	}, }
+	root 
 packet
-	Logout { zchar[	6 ]
-Tail ,repeat  string  venue, 
-}
-packet
+Trade
 
-Cancel  {  u64 count, repeat char[ 5
-] 
-lastPx
-,i64
-    Tail ,
-
-repeat InF140
-    {
+{
 
 repeat
 
-    Logout ,  repeat
-Reject ,
-
-}, }root packet
-
-    Trade 
-{ repeat InMsgkind39 { repeat Reject
-	,
-
-char[  4
-]
-Px  ,} ,
-    string
-Acct  ,  uint16  price	,f32
-OrderId
-
+InMsgkind39	{
+repeat  Reject	,  char[4 ]Px 
+,}
 ,
-u16
+string Acct
+	, 
+uint16
+	price,f32
 
+OrderId 
+,
+u16 x ,	u16 clOrdID
+
+    @lengthOf( 
+Body )
+	,  match
 x
 
-,	u16 clOrdID @lengthOf(  Body )
+    as
+Body
 
-    , match
-x
-    as 
-Body{
-    178
+{	178 
+:
+    Logout  ,
+13
+	:
+Cancel , 174 
+: 
+Reject 
+,
+	}
+    , u16	Flags @calculatedFrom(""CRC32""  )
+,
 
-:Logout
-,  13	: Cancel
-
+    }
+")).
+Eval vm_compute in ("<<<M3684>>>" ++ check (runes_of_ascii "packet Header {
+    @lengthOf(BodyLength)
+    string body @lengthOf(zchar) `two words`,
+    @lengthOf(rootA)
+    i32 metadata `it's`,
+    @tag(00)
+    // trailing space 
+    msg_type @lengthOf(As),
+    int {
+        repeat string u128 `" ++ [233]%N ++ runes_of_ascii "`,
+        match MetaDataX as packetx {
+            [1, 0] : MetaDataX,
+            ""{,}"" : calculatedFrom,
+        },
+        // trailing space 
+        match asx as Logon {
+            7 : uint8x,
+            00 : x_y_z,
+            ""\" ++ [233]%N ++ runes_of_ascii """ : o,
+            """ ++ [233]%N ++ runes_of_ascii "t" ++ [233]%N ++ runes_of_ascii """ : chars,
+        },
+        body i64_ `crlf
+                line`,
+    },
+    a1 `line1
+        line2`,
+    // `tick` ""quote"" 'q'
+    // a // b
+    chars `// not a comment`,
+    @tag(7)
+    leftPad charz,
+    int64 a1 @calculatedFrom(""\n""),
+}")).
+Eval vm_compute in ("<<<M1086>>>" ++ check (runes_of_ascii "// " ++ [128512]%N ++ runes_of_ascii " emoji
+packet u128{ repeat
+MetaDataX
     ,
-174	:Reject  ,
-} ,
+int64
+leftPad
+, //	t
+@lengthOf(
+    matchKey ) //
+@calculatedFrom( """ ++ [28040; 24687]%N ++ runes_of_ascii """ )match T as Header{255 :repeatCount, ""it's""
+    : roots
+, },
+}
+//
+//	t
+packet MetaDataX{ repeat
+// a // b
+// packet A { u8 x, }
+chars
+asx  `tab	here`
+    , repeat o
+// c
+// trailing space 
+{ repeat _x { repeat uint32 charz`u8 x,` ,
+zchar[42  ] leftPad @calculatedFrom( """ ++ [28040; 24687]%N ++ runes_of_ascii """ ) `doc` , /// triple
+} ,  },  int16 u@lengthOf( f32a//	t
+) `tab	here` ,match f32a
+as i64_
+    { 00 :
+    len
+    // `tick` ""quote"" 'q'
+    , } ,
+    } MetaData
+    //x
+    pack { f32a
+packetx ,zchar[ 10 ] Header
+    `tab	here` , zchar[
+007
+    ]
+    string_ `crlf
+line`
+, char[]
+    matchKey , float64 float,}
+")).
+Eval vm_compute in ("<<<M3603>>>" ++ check (runes_of_ascii "packet rootA {
+    @tag(3)
+    zchar[00] x_y_z `" ++ [28040; 24687; 31867; 22411]%N ++ runes_of_ascii "`,
+    _x,
+    // a // b
+    float64 A @lengthOf(u8x),
+    u8 rootA `line1
+        line2`,
+    zchar[7] stringy,
+    match Header as f32a {
+        ""\" ++ [233]%N ++ runes_of_ascii """ : o,
+        [
+            4294967296, 7, 4294967296, ""packet"", ""a	b"",
+            ""CRC32"", 7, ""a	b""
+        ] : repeatCount,
+        ""a\""b"" : Header,
+        [""a\""b""] : crc,
+        [007, 007, ""abc""] : metadata,
+        4294967296 : chars,
+    },
+    @tag(1)
+    i8 matchKey `a\`,
+    // @lengthOf(
+    // " ++ [128512]%N ++ runes_of_ascii " emoji
+    @lengthOf(body)
+    tag,
+    @lengthOf(matchKey)
+    @lengthOf(o)
+    @lengthOf(pack)
+    repeat u {
+        calculatedFrom @lengthOf(falsey),
+    },
+}")).
+Eval vm_compute in ("<<<M3261>>>" ++ check (runes_of_ascii "// top
+MetaData
+    // c0
+x_y_z
+    // c1
+{
+    // c2
+char
+    // c3
+body
+    // c4
+,
+    // c5
+f64
+    // c6
+i8i8
+    // c7
+`two words`
+    // c8
+,
+    // c9
+body
+    // c10
+body
+    // c11
+`" ++ [28040; 24687; 31867; 22411]%N ++ runes_of_ascii "`
+    // c12
+,
+    // c13
+}
+    // c14
+root
+    // c15
+packet
+    // c16
+chars
+    // c17
+{
+    // c18
+@lengthOf(
+    // c19
+i64_
+    // c20
+)
+    // c21
+chars
+    // c22
+,
+    // c23
+i8i8
+    // c24
+{
+    // c25
+falsey
+    // c26
+@lengthOf(
+    // c27
+stringy
+    // c28
+)
+    // c29
+`doc`
+    // c30
+,
+    // c31
+}
+    // c32
+,
+    // c33
+x
+    // c34
+@lengthOf(
+    // c35
+A
+    // c36
+)
+    // c37
+`crlf
+line`
+    // c38
+,
+    // c39
+}
+    // c40
+")).
+Eval vm_compute in ("<<<M113>>>" ++ check (runes_of_ascii "root packet Pad{ @lengthOf( _x) As i8i8 ,f32 lengthOf
+`a\`	,
+    // " ++ [27880; 37322]%N ++ runes_of_ascii "
+    repeat len  `tab	here` , zchar[ //	t
+3 ] body, int8 matchKey
+    `crlf
+line` ,}
+    MetaData metadata { matchKey  packetx
+    ,
+}
+    packet options1	{ repeat charz `line1
+line2`, int8 options1
+    // " ++ [27880; 37322]%N ++ runes_of_ascii "
+    ,
+    repeat	roots
+{
+repeat	float32	x_y_z `say ""hi""`,	}
+// c
+// a // b
+,int64 options1 // `tick` ""quote"" 'q'
+`line1
+line2` , match  falsey
+as falsey
+    {
+    [ ""// no comment""// packet A { u8 x, }
+, """"]:_x  , 42 : // @lengthOf(
+crc ""packet"" : repeatCount, """ ++ [128512]%N ++ runes_of_ascii """
+    //	t
+    :u8x , ""abc""
+: falsey, } , repeat	float64
+x_y_z `a\`,
+}")).
+Eval vm_compute in ("<<<M4072>>>" ++ check (runes_of_ascii "
 
-    u16 
-Flags
+  packet 
+i64_ {	@lengthOf(
+Foo
 
+)// `tick` ""quote"" 'q'
+@lengthOf(calculatedFrom
+    )	o 
+        /// triple
+
+@calculatedFrom(
+""{,}""	) ,
+    uint16 lengthOf
+
+@calculatedFrom(  // a // b
+
+""" ++ [128512]%N ++ runes_of_ascii """ )
+, char[007  ]
+
+trueish
+,
+@tag( 
+// c
+	00
+
+// `tick` ""quote"" 'q'
+		)@tag(//	t
+007
+	)
+        // a // b
+
+	// " ++ [128512]%N ++ runes_of_ascii " emoji
+  float
     @calculatedFrom(
 
-    ""CRC32"")
+    ""\n""
+)	, charz
+    A , Logon @calculatedFrom(
+    ""// no comment"" )  `
+`  // " ++ [27880; 37322]%N ++ runes_of_ascii "
+, @lengthOf( msg_type
+)BodyLength As
+`a\`
+,
+zchar[ 	 // @lengthOf(
+	10
+	]
+	zchar @calculatedFrom( """" // trailing space 
+  )`doc`
+
+    ,
+}
+")).
+Eval vm_compute in ("<<<M448>>>" ++ check (runes_of_ascii "packet int{ @rightPad (
+) @lengthOf(	zchar )
+    @tag(
+7 ) repeat pack ,
+    match f32a as
+    // @lengthOf(
+    float {255: Foo 7 :Pad
+[ ""it's"" , 007
+    ,
+    // `tick` ""quote"" 'q'
+    """", ""x y"" ,
+""packet"", ""a	b"" ]	: As
+    ,4294967296 : Packet ,""" ++ [28040; 24687]%N ++ runes_of_ascii """ : i64_ , } ,char[] Foo@lengthOf(	u8x )
+`it's`
+,
+    @tag( 007 ) u64 Packet , } options { u128
+    = ""packet""
+//	t
+// packet A { u8 x, }
+}root
+packet leftPad{
+    //	t
+    } root packet msg_type
+{ // packet A { u8 x, }
+@leftPad
+    (
+'0' ) uint64 a1 // " ++ [128512]%N ++ runes_of_ascii " emoji
+, }
+// `tick` ""quote"" 'q'
+")).
+Eval vm_compute in ("<<<M3666>>>" ++ check (runes_of_ascii "// top
+options {
+    // c1
+    chars = ""a\\""
+    // c4
+}
+
+// c5
+packet Z9_ {
+    // c8
+    match BodyLength as roots {
+        // c13
+        """ ++ [28040; 24687]%N ++ runes_of_ascii """ : falsey,
+        // c17
+        00 : u128,
+        // c20
+        0 : len,
+        // c24
+        007 : f32a,
+        // c27
+    },
+    // c29
+    @tag(3)
+    // c32
+    @calculatedFrom(""`tick`"")
+    // c35
+    @leftPad(' ')
+    // c39
+    string asx,
+    // c42
+    string u @lengthOf(options1),
+    // c48
+    float32 i64_ @calculatedFrom(""a\""b""),
+    // c54
+}
+// c55")).
+Eval vm_compute in ("<<<M740>>>" ++ check (runes_of_ascii "packet chars {
+// `tick` ""quote"" 'q'
+// `tick` ""quote"" 'q'
+@lengthOf(trueish ) char[10 ] metadata
+//	t
+// packet A { u8 x, }
+@calculatedFrom(""x y"" )
+    , MetaDataX @lengthOf(
+BodyLength)
+`u8 x,` ,match
+    x
+    // trailing space 
+    as trueish { 7 /// triple
+: matchKey , }
+    , }root packet	len { // packet A { u8 x, }
+x@lengthOf(Pad // `tick` ""quote"" 'q'
+),
+    asx { pack
+_x , } ,} MetaData // `tick` ""quote"" 'q'
+pack
+    {
+int8 //x
+zchar
+    // @lengthOf(
+    `tab	here`
+,}
+")).
+Eval vm_compute in ("<<<M1046>>>" ++ check (runes_of_ascii "packet  Packet{ float64 x
+@calculatedFrom( ""a\""b"" )
+`u8 x,`
+,
+@rightPad ( '\x00' )
+    @rightPad
+(
+    // " ++ [128512]%N ++ runes_of_ascii " emoji
+    '0' ) @leftPad (
+    ' '
+    ) char[]
+    _x ,	Packet @lengthOf(
+// a // b
+// a // b
+crc ) , repeat float64 leftPad
+    `
+`
+,
+    @leftPad	(
+    '0') matchKey @calculatedFrom( ""{,}"")
+,
+    repeat  body int,
+u16 o, }
+    options{
+A =
+    true leftPad= char[	4294967296 ] ; T  = float64 // trailing space 
+; options1 =
+/// triple
+// a // b
+65535 ; }")).
+Eval vm_compute in ("<<<M3753>>>" ++ check (runes_of_ascii "packet u128 {
+    @rightPad()
+    @tag(7)
+    stringy body,
+}// packet A { u8 x, }
+
+root packet i64_ {
+}
+
+packet falsey {
+    float @lengthOf(_x) `" ++ [233]%N ++ runes_of_ascii "`,
+    i32 a1,
+    u {
+        //	t
+        string crc,
+    },
+    @leftPad()
+    repeat options1 {
+        calculatedFrom @calculatedFrom(""it's"") `{ , }`,
+        zchar falsey `u8 x,`,
+        repeat falsey,
+    },
+}
+
+root packet pack {
+    @tag(0123456789)
+    // @lengthOf(
+    repeat uint32 roots,
+}")).
+Eval vm_compute in ("<<<M1221>>>" ++ check (runes_of_ascii "root packet pack {
+    charz calculatedFrom `{ , }` , match i8i8
+as o
+    { [
+65535
+    // `tick` ""quote"" 'q'
+    ] :
+    len ""CRC32"" :Foo
+,	[ ""a\""b"" ] :Foo """ ++ [128512]%N ++ runes_of_ascii """: options1,}
+    , repeat//
+u64  roots, u8x
+`two words`, zchar // trailing space 
+, trueish , u64 u128 @lengthOf( packetx ) `a\` ,
+@tag(
+    1 )// " ++ [27880; 37322]%N ++ runes_of_ascii "
+uint32 pack @calculatedFrom( ""\n"" )// @lengthOf(
+, @tag( 1 )	float32 // @lengthOf(
+len
+, @tag( 7) float32
+falsey
+    , }
+")).
+Eval vm_compute in ("<<<M414>>>" ++ check (runes_of_ascii "// @lengthOf(
+options
+{
+a1
+    // a // b
+    =false ;
+}root packet options1	{ i64_ @lengthOf( // trailing space 
+matchKey) ,  u64
+Logon `say ""hi""`  ,
+@lengthOf( a1 // packet A { u8 x, }
+)	@calculatedFrom(
+""\" ++ [233]%N ++ runes_of_ascii """ ) // `tick` ""quote"" 'q'
+repeat float32 _x // packet A { u8 x, }
+,@calculatedFrom(	""// no comment"" ) @tag( 7	)
+@calculatedFrom( ""abc"") int16
+    options1 @calculatedFrom( ""CRC32"" ) ,// `tick` ""quote"" 'q'
+}")).
+Eval vm_compute in ("<<<M4154>>>" ++ check (runes_of_ascii "root packet metadata {
+    // packet A { u8 x, }
+    @rightPad(' ')
+    @leftPad('\x00')
+    f64 a1 `u8 x,`,// trailing space 
+    char[7] metadata @lengthOf(Logon),
+    @calculatedFrom(""\n"")
+    char[4294967296] repeatCount,
+    @tag(65535)
+    zchar[255] chars @lengthOf(stringy),
+    zchar {
+        zchar @lengthOf(crc),
+        uint64 Packet `crlf
+                line`,
+    },
+    /// triple
+}")).
+Eval vm_compute in ("<<<M4029>>>" ++ check (runes_of_ascii "root //x
+	  packet	rootA
+{@leftPad
+('\x00' ) @rightPad (
+    ' ')  
+      // a // b
+    	@tag(
+    0 )
+	repeat	zchar[	3
+]
+matchKey  ,  // packet A { u8 x, }
+	} 
+packet u8x {
+
+}options{packetx =
+'0'
+
+Pad
+=  '\x00'  Logon =
+
+    false 
+; }
+	    // " ++ [128512]%N ++ runes_of_ascii " emoji
+		// c
+	MetaData	u8x { i32 rootA
+
+,  MetaDataX
+	zchar`" ++ [233]%N ++ runes_of_ascii "` ,	// packet A { u8 x, }
+
+int64
+	Foo
+`// not a comment`	,	}
+")).
+Eval vm_compute in ("<<<M364>>>" ++ check (runes_of_ascii "packet string_{ repeat
+crc {
+As
+@calculatedFrom( ""// no comment"" ) `" ++ [28040; 24687; 31867; 22411]%N ++ runes_of_ascii "` // trailing space 
+,char x_y_z @lengthOf( Header )
+    `u8 x,`
+, } ,} root packet u128{ stringy// a // b
+@lengthOf( options1 ) , } packet i64_
+// " ++ [128512]%N ++ runes_of_ascii " emoji
+// `tick` ""quote"" 'q'
+{ @lengthOf( u128 )
+@lengthOf(pack
+) char[ 4294967296
+] falsey@calculatedFrom( """ ++ [233]%N ++ runes_of_ascii "t" ++ [233]%N ++ runes_of_ascii """
+// " ++ [27880; 37322]%N ++ runes_of_ascii "
+// trailing space 
+),
+}
+")).
+Eval vm_compute in ("<<<M1351>>>" ++ check (runes_of_ascii "packet  rootA
+    // `tick` ""quote"" 'q'
+    { leftPad @calculatedFrom( ""`tick`""),
+    } root // trailing space 
+packet zchar {
+    char[	3 ] Packet ,	@tag( 3 ) zchar[ 00 ] lengthOf , repeat u128 {
+repeat int64 A ,/// triple
+}
+    ,  @leftPad ( '0' )
+@lengthOf( u
+//	t
+// c
+) @lengthOf(	repeatCount  ) asx {
+repeat int `" ++ [233]%N ++ runes_of_ascii "`,	zchar[ 3
+] u128
+,} , }
+
+")).
+Eval vm_compute in ("<<<M1398>>>" ++ check (runes_of_ascii "
+packet i8i8 // " ++ [27880; 37322]%N ++ runes_of_ascii "
+{@calculatedFrom(
+    """ ++ [233]%N ++ runes_of_ascii "t" ++ [233]%N ++ runes_of_ascii """) @calculatedFrom(	""" ++ [28040; 24687]%N ++ runes_of_ascii """ )
+repeat
+    leftPad {  uint64 A	@lengthOf( pack ) , As@calculatedFrom(""\n"" ) `it's` , i64_ @calculatedFrom( """ ++ [233]%N ++ runes_of_ascii "t" ++ [233]%N ++ runes_of_ascii """
+    ) , u64 u ,
+    } , repeat u8
+/// triple
+// a // b
+Logon `u8 x,` , options1
+    @calculatedFrom("""" ),
+    repeat string packetx `{ , }` , //
+}
+")).
+Eval vm_compute in ("<<<M4162>>>" ++ check (runes_of_ascii "options {
+    calculatedFrom = '0';
+}
+
+root packet metadata {
+    i64 float @calculatedFrom(""1""),
+    @rightPad()
+    Logon u `crlf
+    line`,// trailing space 
+    falsey Packet `line1
+    line2`,
+    u32 a1 `tab	here`,
+}// " ++ [128512]%N ++ runes_of_ascii " emoji
+
+options {
+    lengthOf = '\x00'
+    msg_type = uint8;
+    repeatCount = 0123456789;
+}//x")).
+Eval vm_compute in ("<<<M360>>>" ++ check (runes_of_ascii "
+packet zchar{
+stringy//
+@lengthOf(
+    MetaDataX )
+    `it's` ,
+    @tag(
+    1
+    )match	Z9_ as
+    calculatedFrom { """ ++ [28040; 24687]%N ++ runes_of_ascii """ :
+    Header, 0123456789 : asx [	255 ]//	t
+: // " ++ [128512]%N ++ runes_of_ascii " emoji
+rootA	""\n""
+: zchar , } , repeat float64 rootA, char[] repeatCount
+, repeat
+int32 metadata `" ++ [233]%N ++ runes_of_ascii "` , repeat
+char[
+7	] u8x ,
+    }
+")).
+Eval vm_compute in ("<<<M1435>>>" ++ check (runes_of_ascii "root packet Foo // " ++ [128512]%N ++ runes_of_ascii " emoji
+{ } options options {
+    // a // b
+    tag // `tick` ""quote"" 'q'
+= //	t
+""""
+    ; u8x = zchar[0  ] }
+MetaData
+    int {zchar[ 10]
+lengthOf	`` , i64 u8x`// not a comment` ,MetaDataX pack// `tick` ""quote"" 'q'
+`crlf
+line`
+, Logon charz `crlf
+line`
+    ,
+    // a // b
+    }
+")).
+Eval vm_compute in ("<<<M1515>>>" ++ check (runes_of_ascii "root packet Foo // " ++ [128512]%N ++ runes_of_ascii " emoji
+{ } options {
+    // a // b
+    tag // `tick` ""quote"" 'q'
+= //	t
+""""
+    ; u8x = zchar[0  ] }
+MetaData
+    int {zchar[ 10 10]
+lengthOf	`` , i64 u8x`// not a comment` ,MetaDataX pack// `tick` ""quote"" 'q'
+`crlf
+line`
+, Logon charz `crlf
+line`
+    ,
+    // a // b
+    }
+")).
+Eval vm_compute in ("<<<M1616>>>" ++ check (runes_of_ascii "root packet Foo // " ++ [128512]%N ++ runes_of_ascii " emoji
+{ } options {
+    // a // b
+    tag // `tick` ""quote"" 'q'
+= //	t
+""""
+    ; u8x = zchar[0  ] }
+MetaData
+    int {zchar[ 10]
+lengthOf	`` , i64 u8x`// not a comment` ,MetaDataX % pack// `tick` ""quote"" 'q'
+`crlf
+line`
+, Logon charz `crlf
+line`
+    ,
+    // a // b
+    }
+")).
+Eval vm_compute in ("<<<M1471>>>" ++ check (runes_of_ascii "root packet Foo // " ++ [128512]%N ++ runes_of_ascii " emoji
+{ } options {
+    // a // b
+    tag // `tick` ""quote"" 'q'
+= //	t
+""""
+    ; u8x zchar[ =0  ] }
+MetaData
+    int {zchar[ 10]
+lengthOf	`` , i64 u8x`// not a comment` ,MetaDataX pack// `tick` ""quote"" 'q'
+`crlf
+line`
+, Logon charz `crlf
+line`
+    ,
+    // a // b
+    }
+")).
+Eval vm_compute in ("<<<M1439>>>" ++ check (runes_of_ascii "root packet Foo // " ++ [128512]%N ++ runes_of_ascii " emoji
+{ } options 
+    // a // b
+    tag // `tick` ""quote"" 'q'
+= //	t
+""""
+    ; u8x = zchar[0  ] }
+MetaData
+    int {zchar[ 10]
+lengthOf	`` , i64 u8x`// not a comment` ,MetaDataX pack// `tick` ""quote"" 'q'
+`crlf
+line`
+, Logon charz `crlf
+line`
+    ,
+    // a // b
+    }
+")).
+Eval vm_compute in ("<<<M1464>>>" ++ check (runes_of_ascii "root packet Foo // " ++ [128512]%N ++ runes_of_ascii " emoji
+{ } options {
+    // a // b
+    tag // `tick` ""quote"" 'q'
+= //	t
+""""
+    ;  = zchar[0  ] }
+MetaData
+    int {zchar[ 10]
+lengthOf	`` , i64 u8x`// not a comment` ,MetaDataX pack// `tick` ""quote"" 'q'
+`crlf
+line`
+, Logon charz `crlf
+line`
+    ,
+    // a // b
+    }
+")).
+Eval vm_compute in ("<<<M1494>>>" ++ check (runes_of_ascii "root packet Foo // " ++ [128512]%N ++ runes_of_ascii " emoji
+{ } options {
+    // a // b
+    tag // `tick` ""quote"" 'q'
+= //	t
+""""
+    ; u8x = zchar[0  ] }
+
+    int {zchar[ 10]
+lengthOf	`` , i64 u8x`// not a comment` ,MetaDataX pack// `tick` ""quote"" 'q'
+`crlf
+line`
+, Logon charz `crlf
+line`
+    ,
+    // a // b
+    }
+")).
+Eval vm_compute in ("<<<M1128>>>" ++ check (runes_of_ascii "//x
+MetaData
+    // packet A { u8 x, }
+    rootA{
+    //	t
+    zchar[ 42 ]
+    msg_type
+    //
+    ,matchKey
+    trueish , // c
+}  packet charz{ @leftPad
+    ('0')
+    metadata packetx  ,
+    } MetaData	f32a { zchar[
+    007]
+    // a // b
+    rootA,u32 calculatedFrom , }")).
+Eval vm_compute in ("<<<M4521>>>" ++ check (runes_of_ascii "
+root
+
+packet
+charz{ 
+roots
+	falsey 
+, 
+@lengthOf(
+    // packet A { u8 x, }
+  u8x )T
+@lengthOf(	x )
+    `line1
+line2`  /// triple
+	,
+    x
+
+@calculatedFrom( 
+    // a // b
+""// no comment"" 
+)
+    ,
+    @leftPad
+(
+
+    ' ' ) zchar[0123456789]  string_
 	,}
 
 ")).
-Eval vm_compute in ("<<<M4365>>>" ++ check (runes_of_ascii "MetaData As {
-    roots repeatCount,
-    char trueish,
-    zchar[255] u128 `crlf
-        line`,
-    char[] int,
-    asx u128 `say ""hi""`,
-    i32 packetx,
-}
-
-options {
-    A = false;
-    packetx = char[0]
-    A = true
-    crc = 1;
-    calculatedFrom = """ ++ [233]%N ++ runes_of_ascii "t" ++ [233]%N ++ runes_of_ascii """
-}
-
-MetaData i8i8 {
-}
-
-packet len {
-    @tag(00)
-    // packet A { u8 x, }
-    uint64 stringy @lengthOf(x_y_z),
-}
-
-packet rootA {
-    @lengthOf(zchar)
-    char _x @lengthOf(x_y_z),//	t
-    string_ @calculatedFrom(""" ++ [233]%N ++ runes_of_ascii "t" ++ [233]%N ++ runes_of_ascii """),// " ++ [128512]%N ++ runes_of_ascii " emoji
-    @lengthOf(A)
-    x_y_z {
-        Pad,
-        match trueish as u8x {
-            4294967296 : u,
-            3 : int,
-            00 : u8x,
-            [
-                0, 3, 0123456789, ""{,}"", ""a	b"",
-                ""a\""b""
-            ] : body,
-            65535 : T,
-        },
-    },
-    i32 chars,
-}")).
-Eval vm_compute in ("<<<M706>>>" ++ check (runes_of_ascii "root packet msg_type
-{ rootA @lengthOf( Header )
-//
-// `tick` ""quote"" 'q'
-, @leftPad
-    (
-    ) @rightPad ( '\x00' )@lengthOf(
-/// triple
-// " ++ [27880; 37322]%N ++ runes_of_ascii "
-asx // trailing space 
-)	Packet @lengthOf(
-zchar	) , @tag(	255) Header `" ++ [28040; 24687; 31867; 22411]%N ++ runes_of_ascii "` ,// @lengthOf(
-len @lengthOf( chars
-    )
-    // c
-    `crlf
-line`	, x { _x Pad
-`tab	here` , string msg_type /// triple
-`tab	here`
-,
-calculatedFrom
-    {u128 { repeat zchar[ 255 ]Pad  , }
-, }
-    // c
-    , falsey/// triple
-@calculatedFrom( """ ++ [28040; 24687]%N ++ runes_of_ascii """ ) ,} ,
-int16	rootA
-    ,repeat options1 { repeat char[ 00
-    ] tag,string
-string_ @calculatedFrom( ""a\\"" ),repeat falsey
-    `a\` ,} ,@lengthOf( u8x )zchar `` ,char[
-65535
-    ] metadata `tab	here` ,@lengthOf( crc ) repeat
-/// triple
-//x
-f64
-    charz `a\` ,
-    }
-// @lengthOf(
-")).
-Eval vm_compute in ("<<<M3265>>>" ++ check (runes_of_ascii "// top
-options // c0
-{
-    // c1
-chars // c2a
-  // c2b
-= ""a\\"" // c4a
-  // c4b
-} // c5a
-  // c5b
-packet
-    // c6
-Z9_ // c7a
-  // c7b
-{ // c8a
-  // c8b
-match // c9
-BodyLength
-    // c10
-as roots
-    // c12
-{ """ ++ [28040; 24687]%N ++ runes_of_ascii """ // c14a
-  // c14b
-: falsey
-    // c16
-,
-    // c17
-00
-    // c18
-: u128 // c20a
-  // c20b
-0
-    // c21
-:
-    // c22
-len , // c24a
-  // c24b
-007 // c25
-:
-    // c26
-f32a }
-    // c28
-, @tag(
-    // c30
-3 // c31
-) @calculatedFrom( // c33
-""`tick`""
-    // c34
-) @leftPad (
-    // c37
-' ' ) // c39
-string // c40
-asx // c41
-, // c42a
-  // c42b
-string // c43a
-  // c43b
-u @lengthOf( options1 ) // c47a
-  // c47b
-, float32 // c49a
-  // c49b
-i64_ @calculatedFrom( ""a\""b"" // c52a
-  // c52b
-) // c53
-, // c54
-} // c55
-")).
-Eval vm_compute in ("<<<M700>>>" ++ check (runes_of_ascii "packet tag// " ++ [27880; 37322]%N ++ runes_of_ascii "
-{
-@tag(65535 )//
-zchar[ 3 ]
-    metadata
-, }  root
-packet
-pack{
-@calculatedFrom( ""x y""
-    /// triple
-    ) a1 @calculatedFrom(""1"" ) `say ""hi""` // @lengthOf(
-,
-zchar @lengthOf(	packetx), @lengthOf( // " ++ [128512]%N ++ runes_of_ascii " emoji
-u128 )@tag( 42	) // packet A { u8 x, }
-@tag( 255 )
-    repeat char[7 ]
-    x_y_z `// not a comment`
-,match u128
-as rootA	{ ""packet"": // " ++ [128512]%N ++ runes_of_ascii " emoji
-tag , [""abc""
-    , ""a\""b"" , ""abc""	, 42,
-    ""1"" ,
-7 , ""// no comment"" ]:  matchKey, 007
-:	roots , 00 :
-// " ++ [27880; 37322]%N ++ runes_of_ascii "
-// " ++ [27880; 37322]%N ++ runes_of_ascii "
-i64_
-    , [""// no comment"" ]
-:
-    // c
-    a1 , } ,
-// " ++ [128512]%N ++ runes_of_ascii " emoji
-// @lengthOf(
-repeat
-Logon {
-    char[ 007
-] f32a
-    @lengthOf(	Header)
-//x
-// packet A { u8 x, }
-, } ,
-    // " ++ [128512]%N ++ runes_of_ascii " emoji
-    }")).
-Eval vm_compute in ("<<<M4129>>>" ++ check (runes_of_ascii "root packet x {
-    @lengthOf(u)
-    @tag(00)
-    @calculatedFrom(""x y"")
-    float64 stringy @calculatedFrom(""""),
-    @leftPad('0')
-    Pad @lengthOf(i8i8),
-    match metadata as crc {
-        ""abc"" : calculatedFrom,
-        // @lengthOf(
-        [
-            1, 3, 007, 42, """",
-            ""a	b"", ""a\""b"", ""it's""
-        ] : msg_type,
-        4294967296 : repeatCount,
-        [0] : T,
-        4294967296 : f32a,
-        42 : u,
-    },
-    @leftPad(' ')
-    uint64 A @calculatedFrom(""`tick`""),
-    match roots as Packet {
-        ""packet"" : uint8x,
-        0 : Packet,
-    },
-}
-
-options {
-    int = ""CRC32""
-    charz = ""CRC32""
-    Foo = true;
-}")).
-Eval vm_compute in ("<<<M4212>>>" ++ check (runes_of_ascii "packet tag {
-    @leftPad('\x00')
-    char[10] calculatedFrom,
-    @calculatedFrom(""a\\"")
-    char[65535] BodyLength,
-    match i8i8 as repeatCount {
-        ""{,}"" : asx,
-        """ ++ [233]%N ++ runes_of_ascii "t" ++ [233]%N ++ runes_of_ascii """ : lengthOf,
-        [10, """"] : crc,
-    },
-    @tag(10)
-    match chars as Logon {
-        0 : crc,
-        [255, """ ++ [128512]%N ++ runes_of_ascii """, ""a\\""] : len,
-    },
-    @calculatedFrom(""`tick`"")
-    @calculatedFrom(""\" ++ [233]%N ++ runes_of_ascii """)
-    o matchKey `crlf
-    line`,
-    @calculatedFrom(""" ++ [28040; 24687]%N ++ runes_of_ascii """)
-    @lengthOf(leftPad)
-    @rightPad('0')
-    char[] float @calculatedFrom(""it's""),
-    @rightPad('0')
-    crc x,
-    Foo T,// @lengthOf(
-    zchar[00] charz @lengthOf(tag),
-}")).
-Eval vm_compute in ("<<<M296>>>" ++ check (runes_of_ascii "root
-packet i64_ // " ++ [27880; 37322]%N ++ runes_of_ascii "
-{match // " ++ [128512]%N ++ runes_of_ascii " emoji
-rootA as stringy {
-    10 : int , 7 : chars
-, 7: int 4294967296: // @lengthOf(
-Foo , [// trailing space 
-7 , """ ++ [28040; 24687]%N ++ runes_of_ascii """  ]  :// c
-BodyLength [ 0 ,""1""
-    , 00 , 7
-    ,""it's"" ] :
-As ,
-    } ,
-repeat char[] a1`u8 x,`, @leftPad
-// packet A { u8 x, }
-// " ++ [27880; 37322]%N ++ runes_of_ascii "
-(
-    // trailing space 
-    ' '	) packetx , @calculatedFrom(  ""\n"")  repeat matchKey
-    { char[7
-    // `tick` ""quote"" 'q'
-    ] falsey
-    `crlf
-line` , } ,
-// c
-/// triple
-@lengthOf( f32a ) uint8
-Z9_
-,
-// a // b
-//	t
-falsey ,	repeat leftPad ,  @tag(1 ) u8x@lengthOf(  i64_
-) , }
-")).
-Eval vm_compute in ("<<<M4136>>>" ++ check (runes_of_ascii "// top
-options {
-    // c1
-    LittleEndian = false;
-    StringPrefixLenType = u8;// c9
-    ArrayPrefixLenType = u16;
-    FixedStringPadFromLeft = false;
-}// c18a
-
-// c18b
-packet Heartbeat {
-    // c21
-    u8 seqNo,// c24a
-    @rightPad('\x00')
-    // c28
-    char[8] x,
-}// c34
-
-root packet Trade {
-    repeat Heartbeat,
-    float32 OrderId,// c44
-    i64 Acct,// c47
-    u16 Qty,
-    // c50
-    u16 clOrdID,
-    // c53
-    match clOrdID as Body {
-        // c58
-        131 : Heartbeat,
-    },
-    // c64
-    u16 sym @calculatedFrom(""CRC32""),
-}")).
-Eval vm_compute in ("<<<M400>>>" ++ check (runes_of_ascii "packet
-i64_ {
-@lengthOf( Foo ) // `tick` ""quote"" 'q'
-@lengthOf(
-    calculatedFrom) o
-    /// triple
-    @calculatedFrom( ""{,}"" ) , uint16 lengthOf@calculatedFrom( // a // b
-""" ++ [128512]%N ++ runes_of_ascii """) , char[ 007 ] trueish ,  @tag(
-    // c
-    00
-    // `tick` ""quote"" 'q'
-    )	@tag( //	t
-007 )
-// a // b
-// " ++ [128512]%N ++ runes_of_ascii " emoji
-float @calculatedFrom( ""\n"" ),
-charz A
-    ,Logon @calculatedFrom( ""// no comment""  )
-`
-` // " ++ [27880; 37322]%N ++ runes_of_ascii "
-,@lengthOf( msg_type ) BodyLength As `a\` , zchar[// @lengthOf(
-10]
-zchar @calculatedFrom( """" // trailing space 
-)
-`doc`, }
-")).
-Eval vm_compute in ("<<<M4401>>>" ++ check (runes_of_ascii "packet Logon {
-    @calculatedFrom(""a	b"")
-    repeat options1,
-    @calculatedFrom(""a\\"")
-    // c
-    char[] options1 `it's`,
-    @tag(4294967296)
-    repeat Logon {
-        match trueish as u128 {
-            ""x y"" : i64_,
-            [4294967296, 007, 10] : i8i8,
-        },
-        //
-        // @lengthOf(
-        T `u8 x,`,
-        repeat uint64 T `u8 x,`,
-    },
-}
-
-options {
-    u128 = '0'
-    tag = true;
-    Packet = char[0123456789];
-    Foo = 007
-    body = 3;
-}
-
-packet i64_ {
-}")).
-Eval vm_compute in ("<<<M1365>>>" ++ check (runes_of_ascii "root packet
-    /// triple
-    stringy
-    { stringy
-pack
-, char[1 ] T // @lengthOf(
-@calculatedFrom( ""// no comment""
-),  zchar[ 4294967296 ] stringy
-@calculatedFrom(
-""CRC32"" )`doc` , zchar[1
-    ]
-body @lengthOf( A
-) ,	asx@lengthOf(
-    Packet ) `two words` // packet A { u8 x, }
-,leftPad @calculatedFrom( ""\n"" ) `it's` ,i16
-f32a
-    // @lengthOf(
-    , }MetaData
-metadata{
-char[	7 ]  crc , options1	u128 `two words` , falsey calculatedFrom, string_ As //x
-, }")).
-Eval vm_compute in ("<<<M1041>>>" ++ check (runes_of_ascii "root
-    packet charz // " ++ [27880; 37322]%N ++ runes_of_ascii "
-{options1 i64_ ,
-int {zchar[
-    0123456789 ] // " ++ [27880; 37322]%N ++ runes_of_ascii "
-_x , int , Pad `doc`
-    , // " ++ [128512]%N ++ runes_of_ascii " emoji
-repeat T //x
-{
-    repeat msg_type , char[]
-/// triple
-//	t
-lengthOf @lengthOf(	metadata) `tab	here` , char[] // " ++ [27880; 37322]%N ++ runes_of_ascii "
-_x
-    //x
-    , }	,
-},Logon crc
-// `tick` ""quote"" 'q'
-//
-,} MetaData chars {int16 repeatCount ,u64 float,x_y_z Logon
-    ``// @lengthOf(
-,
-char[ 1//	t
-]	Foo ,
-zchar[ 65535]int
-,x_y_z calculatedFrom , // a // b
-}")).
-Eval vm_compute in ("<<<M808>>>" ++ check (runes_of_ascii "packet
-    x
-{
-} MetaData calculatedFrom { } MetaData x_y_z{
-char u , char[]u8x ,// a // b
-char[ 0123456789 ] u128
-//x
-/// triple
-`say ""hi""`
-    ,zchar rootA , f64 x_y_z,
-    } packet uint8x { @calculatedFrom( // " ++ [128512]%N ++ runes_of_ascii " emoji
-""a\""b""
-)  @calculatedFrom( ""CRC32""	)
-repeat char[] trueish ,
-}root packet falsey
-    { repeat// `tick` ""quote"" 'q'
-uint8x
-{ string metadata
-    @calculatedFrom(
-    ""a\\"" )	`" ++ [28040; 24687; 31867; 22411]%N ++ runes_of_ascii "`	, Foo @lengthOf( falsey
-), },}
-")).
-Eval vm_compute in ("<<<M4229>>>" ++ check (runes_of_ascii "// top
-options {
-    LittleEndian = true;
-}// c6
-
-packet Logon {
-    // c9a
-    // c9b
-    u8 x,// c12
-    string user,// c15a
-}// c16a
-
-// c16b
-packet Logout {
-    // c19
-    u16 reason,
-}// c23a
-
-// c23b
-packet Empty {
-}
-
-// c27
-root packet Frame {
-    u16 MsgType,
-    @lengthOf(Body)
-    // c37a
-    // c37b
-    u8 BodyLen,
-    // c40
-    u8 flags,
-    Logon Body,// c46a
-    // c46b
-    u32 trailer,// c49a
-}// c50a")).
-Eval vm_compute in ("<<<M4371>>>" ++ check (runes_of_ascii "// top
-    	packet
-	    // c0
-  Logon  
-  // c1
-	{
-	    // c2
-  @tag( 
-
-// c3
-42
-
-    // c4
-) 
-        // c5
-    @rightPad
-	// c6
-		( 
-        // c7
-' ' 
-        // c8
-
-	)  
-      // c9
-  	@leftPad 
-	// c10
-	( 
-// c11
-) 
-	    // c12
-repeat 
-
-    // c13
-trueish 
-    // c14
-
-  {
-// c15
-  string 
-    // c16
-  	T
-// c17
-  ,  
-      // c18
-    }
-
-    // c19
-  , 
-	    // c20
-}
-    // c21
-")).
-Eval vm_compute in ("<<<M4415>>>" ++ check (runes_of_ascii "  packet float
-	{ @lengthOf(
-pack
-)
-	int16 string_
-    ,
-	}  options
-{  leftPad 
-	// c
-      /// triple
-=
-
-true
-
-    ; x =
-    int16
-	Foo	= 00	string_	=
-    '\x00'
-;
-
-    } root
-packet Foo { packetx
-	@lengthOf( i8i8
-
-) `tab	here`  ,int16
-
-    A
-,
-	@lengthOf(
-    // " ++ [128512]%N ++ runes_of_ascii " emoji
-  //
-trueish  )	repeat	int	zchar  `a\`  ,
-	}
-/// triple
-  //
-MetaData
-
-body
-{
-
-    } 
-//
-")).
-Eval vm_compute in ("<<<M1129>>>" ++ check (runes_of_ascii "root packet
-    // packet A { u8 x, }
-    string_ { @lengthOf( a1
-// @lengthOf(
-// c
-) @lengthOf( f32a ) Foo@lengthOf(// `tick` ""quote"" 'q'
-As ) `tab	here` ,
-}root // trailing space 
-packet crc { @calculatedFrom( // " ++ [27880; 37322]%N ++ runes_of_ascii "
-""1"") float32 pack , //	t
-} options {len = '\x00' ;uint8x
-// @lengthOf(
-// a // b
-= 0 ; Z9_
-= zchar[
-3	];tag// `tick` ""quote"" 'q'
-= ""a\""b""
-    ; }
-")).
-Eval vm_compute in ("<<<M543>>>" ++ check (runes_of_ascii "packet string_ // " ++ [27880; 37322]%N ++ runes_of_ascii "
-{ match
-    //	t
-    Pad as Z9_{
-    [42 ] :trueish ,
-    // trailing space 
-    }
-, float32
-x `u8 x,`	, @leftPad	( '\x00' )	o @lengthOf(
-    x_y_z )
-, msg_type @lengthOf(
-//x
-// `tick` ""quote"" 'q'
-u ) `line1
-line2`// `tick` ""quote"" 'q'
-, @calculatedFrom(""a\\"" )  int @calculatedFrom( ""packet"" ),  BodyLength `// not a comment` ,}
-")).
-Eval vm_compute in ("<<<M87>>>" ++ check (runes_of_ascii "options {
-    x_y_z	= false
-;
-    stringy =
-    """ ++ [233]%N ++ runes_of_ascii "t" ++ [233]%N ++ runes_of_ascii """;
-    // trailing space 
-    crc =
-""" ++ [128512]%N ++ runes_of_ascii """  i8i8=
-'0'
-    ;
-}
-    // `tick` ""quote"" 'q'
-    packet _x { match u128 as tag { ""CRC32"" :stringy , 3
-    //	t
-    : repeatCount ,// " ++ [27880; 37322]%N ++ runes_of_ascii "
-""\" ++ [233]%N ++ runes_of_ascii """ :	float,	[
-"""" ,  """"	, """ ++ [28040; 24687]%N ++ runes_of_ascii """ , ""a\""b"" ]
-    : u8x ,""1""
-:
-    x_y_z
-, } , }packet stringy {
-}
-// " ++ [128512]%N ++ runes_of_ascii " emoji
-")).
-Eval vm_compute in ("<<<M488>>>" ++ check (runes_of_ascii "root packet // " ++ [128512]%N ++ runes_of_ascii " emoji
-charz
-    { @calculatedFrom( ""x y"" ) zchar[ 0 ] u128
-    @calculatedFrom( ""x y"" ) , u16 MetaDataX ,
-zchar[ 0123456789] u128 , uint16 u128
-,  @lengthOf(
-    int
-) _x Foo
-    `
-`,zchar[	00
-    ]
-o
-@calculatedFrom( /// triple
-""packet"" )  ,rootA `doc`,
-    char[]msg_type @calculatedFrom(""" ++ [233]%N ++ runes_of_ascii "t" ++ [233]%N ++ runes_of_ascii """
-) , }
-")).
-Eval vm_compute in ("<<<M135>>>" ++ check (runes_of_ascii "packet T{ } packet string_ { @tag(7	)repeat uint8 rootA
+Eval vm_compute in ("<<<M509>>>" ++ check (runes_of_ascii "MetaData len
+{ f64 u ,char[] Z9_ `doc` ,metadata
     // " ++ [27880; 37322]%N ++ runes_of_ascii "
-    ,@lengthOf(	o
-    )
-    float
-u ,// trailing space 
-Packet @calculatedFrom(
-    ""a\\"" ) ,
-    f32	repeatCount `say ""hi""` /// triple
-, } packet MetaDataX	{match	leftPad as Packet { 007
-: // `tick` ""quote"" 'q'
-x ,
-} , // trailing space 
-}")).
-Eval vm_compute in ("<<<M314>>>" ++ check (runes_of_ascii "options
-{roots =3 leftPad
-/// triple
+    A,i64 stringy`line1
+line2` , A int`line1
+line2` // `tick` ""quote"" 'q'
+, f32 i8i8 , }packet
 // c
-= string	; packetx =	false ; zchar
-= true options1 = false ;
-    } MetaData
-    string_ {i32 x_y_z
-    ,char[ 4294967296
-] zchar`two words`
-, // c
-char[ 42 ] metadata
-, }packet _x {
-    int8 rootA`doc` ,
-    } options
-{ lengthOf =
-    ""// no comment"" } 	 ")).
-Eval vm_compute in ("<<<M1545>>>" ++ check (runes_of_ascii "root packet Foo // " ++ [128512]%N ++ runes_of_ascii " emoji
-{ } options {
-    // a // b
-    tag // `tick` ""quote"" 'q'
-= //	t
-""""
-    ; u8x = zchar[0  ] }
-MetaData
-    int {zchar[ 10]
-lengthOf	`` , i64 u8x u8x`// not a comment` ,MetaDataX pack// `tick` ""quote"" 'q'
-`crlf
-line`
-, Logon charz `crlf
-line`
-    ,
-    // a // b
-    }
-")).
-Eval vm_compute in ("<<<M1505>>>" ++ check (runes_of_ascii "root packet Foo // " ++ [128512]%N ++ runes_of_ascii " emoji
-{ } options {
-    // a // b
-    tag // `tick` ""quote"" 'q'
-= //	t
-""""
-    ; u8x = zchar[0  ] }
-MetaData
-    int { {zchar[ 10]
-lengthOf	`` , i64 u8x`// not a comment` ,MetaDataX pack// `tick` ""quote"" 'q'
-`crlf
-line`
-, Logon charz `crlf
-line`
-    ,
-    // a // b
-    }
-")).
-Eval vm_compute in ("<<<M1421>>>" ++ check (runes_of_ascii "root packet { // " ++ [128512]%N ++ runes_of_ascii " emoji
-Foo } options {
-    // a // b
-    tag // `tick` ""quote"" 'q'
-= //	t
-""""
-    ; u8x = zchar[0  ] }
-MetaData
-    int {zchar[ 10]
-lengthOf	`` , i64 u8x`// not a comment` ,MetaDataX pack// `tick` ""quote"" 'q'
-`crlf
-line`
-, Logon charz `crlf
-line`
-    ,
-    // a // b
-    }
-")).
-Eval vm_compute in ("<<<M1586>>>" ++ check (runes_of_ascii "root packet Foo // " ++ [128512]%N ++ runes_of_ascii " emoji
-{ } options {
-    // a // b
-    tag // `tick` ""quote"" 'q'
-= //	t
-""""
-    ; u8x = zchar[0  ] }
-MetaData
-    int {zchar[ 10]
-lengthOf	`` , i64 u8x`// not a comment` ,MetaDataX pack// `tick` ""quote"" 'q'
-`crlf
-line`
-, Logon `crlf
-line` charz
-    ,
-    // a // b
-    }
-")).
-Eval vm_compute in ("<<<M1529>>>" ++ check (runes_of_ascii "root packet Foo // " ++ [128512]%N ++ runes_of_ascii " emoji
-{ } options {
-    // a // b
-    tag // `tick` ""quote"" 'q'
-= //	t
-""""
-    ; u8x = zchar[0  ] }
-MetaData
-    int {zchar[ 10]
-lengthOf	 , i64 u8x`// not a comment` ,MetaDataX pack// `tick` ""quote"" 'q'
-`crlf
-line`
-, Logon charz `crlf
-line`
-    ,
-    // a // b
-    }
-")).
-Eval vm_compute in ("<<<M474>>>" ++ check (runes_of_ascii "options {body // " ++ [27880; 37322]%N ++ runes_of_ascii "
-= u16; asx =char[]
-;	} MetaData
-leftPad { len rootA , int64	BodyLength `say ""hi""` , char[ 00 ] packetx// " ++ [128512]%N ++ runes_of_ascii " emoji
-,char[
-    // a // b
-    42 ] x `// not a comment`  ,
-    int i64_
-//	t
-// `tick` ""quote"" 'q'
-`doc` ,
-char Pad `two words`// packet A { u8 x, }
-, //
-}
-")).
-Eval vm_compute in ("<<<M3840>>>" ++ check (runes_of_ascii "
-packet 
-len	{ 
-@calculatedFrom( 
-""1""
+//
+stringy/// triple
+{ @calculatedFrom( """ ++ [128512]%N ++ runes_of_ascii """
+    )char[]
+roots, }
+root packet metadata {
+}")).
+Eval vm_compute in ("<<<M600>>>" ++ check (runes_of_ascii "MetaData Header
+{ uint64 lengthOf , int32 packetx , matchKey u8x `say ""hi""`,char[]
+T , packetx options1 , Packet falsey ,} // @lengthOf(
+options// c
+{ u128
+//x
+// " ++ [128512]%N ++ runes_of_ascii " emoji
+=65535	Foo
+    = true } /// triple
+packet int{ }MetaData
+    u {}
 
+")).
+Eval vm_compute in ("<<<M286>>>" ++ check (runes_of_ascii "options{
+} options {
+    } root packet uint8x { @leftPad ('\x00'
     )
-zchar[
-0
-
-    ]tag `u8 x,`
-,
-	@tag(  7)
-repeat 
-uint64 stringy `// not a comment`  ,
-	@calculatedFrom(""\n"" )
-	@lengthOf( trueish
-)repeat
-_x	zchar
-	,
-
-    @lengthOf( crc )  zchar[
-255
-
-]
-
-Foo
-
-`" ++ [233]%N ++ runes_of_ascii "`
-,	}// trailing space 
- 
-")).
-Eval vm_compute in ("<<<M3489>>>" ++ check (runes_of_ascii "packet MDSnapshotZZ {
-    u8 a,
-}
-packet OrderACK {
-    u16 b,
-}
-packet HTTPServerInfo {
-    string s,
-}
-root packet FIXMsg {
-    u8 KType,
-    MDSnapshotZZ,
-    repeat OrderACK,
-    match KType as Body {
-        1 : HTTPServerInfo,
-        2 : OrderACK,
-    },
-}
-")).
-Eval vm_compute in ("<<<M3841>>>" ++ check (runes_of_ascii "packet len {
-    @calculatedFrom(""1"")
-    zchar[0] tag `u8 x,`,
-    @tag(7)
-    repeat uint64 stringy `// not a comment`,
-    @calculatedFrom(""\n"")
-    @lengthOf(trueish)
-    repeat _x zchar,
-    @lengthOf(crc)
-    zchar[255] Foo `" ++ [233]%N ++ runes_of_ascii "`,
-}// trailing space")).
-Eval vm_compute in ("<<<M3211>>>" ++ check (runes_of_ascii "// top
-packet // c0
-Logon // c1
-{ // c2
-@tag( // c3
-42 // c4
-) // c5
-@rightPad // c6
-( // c7
-' ' // c8
-) // c9
-@leftPad // c10
-( // c11
-) // c12
-repeat // c13
-trueish // c14
-{ // c15
-string // c16
-T // c17
-, // c18
-} // c19
-, // c20
-} // c21
-")).
-Eval vm_compute in ("<<<M4289>>>" ++ check (runes_of_ascii "  packet
-	Logon{	@lengthOf(
-
-Pad 
-) int  { match
-
-    matchKey
-	as
-    Pad 
-{""CRC32""
+    match uint8x as	pack {[ ""\n"" ,
+""a	b""
+    ,
+10,
+    // " ++ [27880; 37322]%N ++ runes_of_ascii "
+    255 ,
+// " ++ [27880; 37322]%N ++ runes_of_ascii "
+//	t
+""a	b"" , //x
+"""" ] // " ++ [27880; 37322]%N ++ runes_of_ascii "
 :
-    body ,	}
-
-    , 
-len
-
-// `tick` ""quote"" 'q'
-	@lengthOf(// `tick` ""quote"" 'q'
-	chars
-)
-    /// triple
-  	, 
-float@lengthOf(	Foo) , }
-,	}")).
-Eval vm_compute in ("<<<M240>>>" ++ check (runes_of_ascii "packet T {}  MetaData i8i8{
-    calculatedFrom	u128
-`u8 x,` , string_
-a1	`" ++ [233]%N ++ runes_of_ascii "`
-    ,	Foo
-    int ,
-    zchar[007 ]chars , pack x , crc repeatCount , }packet options1
-{ @tag(1 )char[1]
-f32a ,_x@lengthOf(_x ) ``, } // " ++ [128512]%N ++ runes_of_ascii " emoji")).
-Eval vm_compute in ("<<<M2343>>>" ++ check (runes_of_ascii "MetaData Packet { }packet	asx  { @lengthOf( asx) falsey`crlf
-line`
-,
-    }
-    packet x	{uint32// @lengthOf(
-rootA	,u32 options1 `say ""hi""` , @tag( 7
-    options// packet A { u8 x, }
-msg_type @lengthOf(
-stringy	)	, }
-
-")).
-Eval vm_compute in ("<<<M2291>>>" ++ check (runes_of_ascii "MetaData Packet { }packet	asx  { @lengthOf( asx) falsey`crlf
-line`
-,
-    }
-    packet x	{ {uint32// @lengthOf(
-rootA	,u32 options1 `say ""hi""` , @tag( 7
-    )// packet A { u8 x, }
-msg_type @lengthOf(
-stringy	)	, }
-
-")).
-Eval vm_compute in ("<<<M1383>>>" ++ check (runes_of_ascii "root  packet packetx
-{ trueish
-    @lengthOf(  repeatCount) , @lengthOf(
-    u
-) // `tick` ""quote"" 'q'
-Packet u // trailing space 
-`" ++ [233]%N ++ runes_of_ascii "`
-    , }
-    options
-    {
-leftPad =
-    0123456789; u = 65535 ; } // " ++ [128512]%N ++ runes_of_ascii " emoji")).
-Eval vm_compute in ("<<<M2393>>>" ++ check (runes_of_ascii "MetaData Packet { }packet	asx  { @lengthOf( a" ++ [769]%N ++ runes_of_ascii "b) falsey`crlf
-line`
-,
-    }
-    packet x	{uint32// @lengthOf(
-rootA	,u32 options1 `say ""hi""` , @tag( 7
-    )// packet A { u8 x, }
-msg_type @lengthOf(
-stringy	)	, }
-
-")).
-Eval vm_compute in ("<<<M2310>>>" ++ check (runes_of_ascii "MetaData Packet { }packet	asx  { @lengthOf( asx) falsey`crlf
-line`
-,
-    }
-    packet x	{uint32// @lengthOf(
-rootA	, options1 `say ""hi""` , @tag( 7
-    )// packet A { u8 x, }
-msg_type @lengthOf(
-stringy	)	, }
-
-")).
-Eval vm_compute in ("<<<M2348>>>" ++ check (runes_of_ascii "MetaData Packet { }packet	asx  { @lengthOf( asx) falsey`crlf
-line`
-,
-    }
-    packet x	{uint32// @lengthOf(
-rootA	,u32 options1 `say ""hi""` , @tag( 7
-    )// packet A { u8 x, }
-{ @lengthOf(
-stringy	)	, }
-
-")).
-Eval vm_compute in ("<<<M3643>>>" ++ check (runes_of_ascii "
-
-  packet i8i8 {
-int64
-BodyLength @calculatedFrom( ""packet""
-	)
-
-,  @leftPad
-
-    (
-)
-zchar[/// triple
-	  1
-    ]calculatedFrom
-	,
-repeat	x_y_z  ,//	t
-	T A ,
-	}
-MetaData
-    charz
-	{
-}  // " ++ [27880; 37322]%N ++ runes_of_ascii "
- 
-")).
-Eval vm_compute in ("<<<M336>>>" ++ check (runes_of_ascii "packet
-    a1//	t
-{ @tag( 10 )	match x
-    as float { 007
-: falsey
-    , }	,}
-options
-    { uint8x  = false ; } MetaData
-    rootA
-    {
-//	t
-// packet A { u8 x, }
-u32 i64_	,zchar[ 42] zchar, }
-")).
-Eval vm_compute in ("<<<M2354>>>" ++ check (runes_of_ascii "MetaData Packet { }packet	asx  { @lengthOf( asx) falsey`crlf
-line`
-,
-    }
-    packet x	{uint32// @lengthOf(
-rootA	,u32 options1 `say ""hi""` , @tag( 7
-    )// packet A { u8 x, }
-msg_type")).
-Eval vm_compute in ("<<<M3777>>>" ++ check (runes_of_ascii "root
-
-    packet	x_y_z
-{ @leftPad
-(	' ' )	uint8x {
-
-float32	len@calculatedFrom(""it's""
-	    //
-	  )`" ++ [233]%N ++ runes_of_ascii "`,
-
-    match o
-    as
-stringy
-	{ [
-""{,}""
-
-]:
-x ,} ,
+    repeatCount
+    , // c
 }
-    ,
-    }
-
-")).
-Eval vm_compute in ("<<<M183>>>" ++ check (runes_of_ascii "packet x_y_z{  } packet  Logon { repeat i8 int
-,} root packet stringy
-{ char chars ,
-char[] a1@calculatedFrom( ""// no comment"" )`// not a comment`, string
-    Logon , }
-")).
-Eval vm_compute in ("<<<M1345>>>" ++ check (runes_of_ascii "options {f32a
-=
-""packet"" } MetaData
-    float{ zchar[0 ]Z9_ `
-` ,
-u64 roots ,
-    //	t
-    uint64  zchar`` , int32
-trueish, uint64 roots
-,
-} // `tick` ""quote"" 'q'")).
-Eval vm_compute in ("<<<M421>>>" ++ check (runes_of_ascii "// c
-options
-{	x
-    = ""1"" x =	'\x00'	; body =65535
-    // `tick` ""quote"" 'q'
-    ; repeatCount = // packet A { u8 x, }
-' '
-trueish = // " ++ [128512]%N ++ runes_of_ascii " emoji
-char[]
-}
-")).
-Eval vm_compute in ("<<<M55>>>" ++ check (runes_of_ascii "
-packet Foo
-    {
-    repeat
-int
-    //x
-    { string u @calculatedFrom( ""packet"")	`` // @lengthOf(
-,}
-,zchar[ 007 ]  A
-    `doc`, }
-options { }")).
-Eval vm_compute in ("<<<M4297>>>" ++ check (runes_of_ascii "MetaData u128 {
-    char[3] leftPad,
-    char[] u8x `{ , }`,
-    Header i8i8,
-}
-
-options {
-    //
-    crc = ""// no comment""
-    asx = ""CRC32"";
-}")).
-Eval vm_compute in ("<<<M1648>>>" ++ check (runes_of_ascii "root packet /// triple
-rootA {	i32
-MetaDataX MetaDataX@calculatedFrom( ""CRC32"" ) `line1
-line2` , } MetaData BodyLength {
-u8
-rootA, } // c")).
-Eval vm_compute in ("<<<M3941>>>" ++ check (runes_of_ascii "options {
-    rootA = '\x00'
-    _x = true
-}
-
-packet uint8x {
-    uint16 u @lengthOf(x_y_z) `say ""hi""`,
-}
-
-MetaData _x {
-}
-
-options {
-}")).
-Eval vm_compute in ("<<<M4385>>>" ++ check (runes_of_ascii "packet A {
-    match k as n {
-        [
-            1, 22, 4, 5, 7,
-            8, ""c c"", ""f""
-        ] : B,
-        2 : C,
-    },
-}")).
-Eval vm_compute in ("<<<M198>>>" ++ check (runes_of_ascii "// c
-options{
-    //
-    repeatCount = '0';leftPad =
-' ';
-// c
-/// triple
-msg_type
-    = char[ 10
-]
-;}
+    ,// " ++ [128512]%N ++ runes_of_ascii " emoji
+} 	 ")).
+Eval vm_compute in ("<<<M4519>>>" ++ check (runes_of_ascii "
 packet
-    Packet {//x
+
+    falsey 
+{ 
+@leftPad
+	(
+
+    ) // packet A { u8 x, }
+    zchar[
+    007 ]  i8i8
+
+    @calculatedFrom(	""" ++ [28040; 24687]%N ++ runes_of_ascii """
+    ) 
+,  a1
+{	float32 
+Foo@lengthOf(  u8x 
+)  , },
+chars
+
+, 
+repeat
+char[]
+
+roots `" ++ [28040; 24687; 31867; 22411]%N ++ runes_of_ascii "` , 
 }
 ")).
-Eval vm_compute in ("<<<M3576>>>" ++ check (runes_of_ascii "
-packet	Logon 
-	    // c
-  	{  @tag(
-
-42)
-
-@rightPad ( ' '
-
-)
-    @leftPad( )
-
-    repeat	trueish {	string
-	T  ,
+Eval vm_compute in ("<<<M2251>>>" ++ check (runes_of_ascii "MetaData Packet { }packet	asx  { @lengthOf( asx asx) falsey`crlf
+line`
+,
     }
-	, } ")).
-Eval vm_compute in ("<<<M287>>>" ++ check (runes_of_ascii "
-MetaData Pad { int64 roots ,body u128
-    //x
-    , float64 x // trailing space 
-, int32
-    chars , A options1 `
-`,
+    packet x	{uint32// @lengthOf(
+rootA	,u32 options1 `say ""hi""` , @tag( 7
+    )// packet A { u8 x, }
+msg_type @lengthOf(
+stringy	)	, }
+
+")).
+Eval vm_compute in ("<<<M737>>>" ++ check (runes_of_ascii "  MetaData x
+{Foo Header , char[ 0123456789 ] len
+,
+int64 i64_, char[
+    42 ] i8i8,i16 /// triple
+pack , int64 u8x
+    `it's` ,
+    }	packet pack // @lengthOf(
+{ @calculatedFrom( ""// no comment"" )len matchKey
+,}
+")).
+Eval vm_compute in ("<<<M2277>>>" ++ check (runes_of_ascii "MetaData Packet { }packet	asx  { @lengthOf( asx) falsey`crlf
+line`
+,
+    packet
+    } x	{uint32// @lengthOf(
+rootA	,u32 options1 `say ""hi""` , @tag( 7
+    )// packet A { u8 x, }
+msg_type @lengthOf(
+stringy	)	, }
+
+")).
+Eval vm_compute in ("<<<M2305>>>" ++ check (runes_of_ascii "MetaData Packet { }packet	asx  { @lengthOf( asx) falsey`crlf
+line`
+,
+    }
+    packet x	{uint32// @lengthOf(
+rootA	u32 options1 `say ""hi""` , @tag( 7
+    )// packet A { u8 x, }
+msg_type @lengthOf(
+stringy	)	, }
+
+")).
+Eval vm_compute in ("<<<M2330>>>" ++ check (runes_of_ascii "MetaData Packet { }packet	asx  { @lengthOf( asx) falsey`crlf
+line`
+,
+    }
+    packet x	{uint32// @lengthOf(
+rootA	,u32 options1 `say ""hi""` ,  7
+    )// packet A { u8 x, }
+msg_type @lengthOf(
+stringy	)	, }
+
+")).
+Eval vm_compute in ("<<<M603>>>" ++ check (runes_of_ascii "packet
+    // c
+    stringy { u128
+@lengthOf( _x
+)
+,
+match
+    leftPad as i64_ { """ ++ [28040; 24687]%N ++ runes_of_ascii """: T, [
+""" ++ [233]%N ++ runes_of_ascii "t" ++ [233]%N ++ runes_of_ascii """	] : roots 65535// c
+: int}	,@tag( 65535 // c
+)
+    repeat string Logon,
+    // packet A { u8 x, }
     }
 ")).
-Eval vm_compute in ("<<<M1633>>>" ++ check (runes_of_ascii "root packet /// triple
- {	i32
+Eval vm_compute in ("<<<M1367>>>" ++ check (runes_of_ascii "packet leftPad {
+    //
+    i8 string_@calculatedFrom( ""\" ++ [233]%N ++ runes_of_ascii """ ) `` ,
+repeat MetaDataX {match u128
+    as
+    asx  {""a\\"": T
+, ""CRC32"" :
+    stringy ,
+0 : options1 ,
+    } , }/// triple
+,// " ++ [128512]%N ++ runes_of_ascii " emoji
+}")).
+Eval vm_compute in ("<<<M480>>>" ++ check (runes_of_ascii "MetaData
+    u
+{ string_ BodyLength// packet A { u8 x, }
+,
+char T ``
+,// " ++ [27880; 37322]%N ++ runes_of_ascii "
+u128 Logon , string
+crc
+, u8 matchKey , u8  i64_ // packet A { u8 x, }
+`" ++ [233]%N ++ runes_of_ascii "`
+,
+    // trailing space 
+    } // c")).
+Eval vm_compute in ("<<<M4116>>>" ++ check (runes_of_ascii "MetaData
+options1	{
+packetx x`
+`  ,	//	t
+    }
+options
+    {
+	x_y_z=	true	options1  =char[] 	 // trailing space 
+	; body =
+65535  /// triple
+		lengthOf=""it's""
+
+;
+	x =
+    '\x00'  }
+")).
+Eval vm_compute in ("<<<M242>>>" ++ check (runes_of_ascii "  options{
+    // trailing space 
+    A = ' '
+    ; calculatedFrom
+// c
+// a // b
+=
+    ""a\""b""
+;
+msg_type  =	char[ 4294967296] ;
+    //
+    rootA
+= '\x00' msg_type	= false }")).
+Eval vm_compute in ("<<<M4095>>>" ++ check (runes_of_ascii "packet f32a {
+    //
+    match o as As {
+        10 : roots,
+        // " ++ [27880; 37322]%N ++ runes_of_ascii "
+        [255, 42, 10, 00] : matchKey,
+    },
+}
+
+options {
+    u128 = 65535
+    Packet = 3;
+}")).
+Eval vm_compute in ("<<<M1307>>>" ++ check (runes_of_ascii "MetaData
+stringy { zchar[ 255 ] u`
+` , // packet A { u8 x, }
+string repeatCount ,
+    As i8i8 `{ , }` ,
+string x_y_z
+    // c
+    , uint16 Pad , uint32
+asx ,
+}
+")).
+Eval vm_compute in ("<<<M72>>>" ++ check (runes_of_ascii "packet
+Header//	t
+{ float32
+repeatCount @lengthOf(
+f32a
+/// triple
+// a // b
+) , }options{ As	= true; } packet Pad
+{ @rightPad
+( ' ' ) leftPad
+    , }
+")).
+Eval vm_compute in ("<<<M1097>>>" ++ check (runes_of_ascii "packet	calculatedFrom
+{
+@lengthOf(body)
+    @tag(0123456789)
+@calculatedFrom(
+// trailing space 
+// a // b
+""" ++ [128512]%N ++ runes_of_ascii """ ) options1 `// not a comment` , }
+")).
+Eval vm_compute in ("<<<M4500>>>" ++ check (runes_of_ascii "// top
+options {
+    // c1
+    FixedStringPadFromLeft = true;
+    // c5
+}
+
+// c6
+root packet P {
+    // c10
+    char[4] z,// c15a
+    // c15b
+}")).
+Eval vm_compute in ("<<<M4229>>>" ++ check (runes_of_ascii "
+packet 
+o {}
+
+packet
+MetaDataX
+    { 
+} root
+packet 
+u8x 
+{
+    MetaDataX @calculatedFrom(
+
+    ""\n""  ) ,} 	 // packet A { u8 x, }
+")).
+Eval vm_compute in ("<<<M1626>>>" ++ check (runes_of_ascii "root root packet /// triple
+rootA {	i32
 MetaDataX@calculatedFrom( ""CRC32"" ) `line1
 line2` , } MetaData BodyLength {
 u8
 rootA, } // c")).
-Eval vm_compute in ("<<<M3433>>>" ++ check (runes_of_ascii "packet B {
+Eval vm_compute in ("<<<M1638>>>" ++ check (runes_of_ascii "root packet /// triple
+rootA { {	i32
+MetaDataX@calculatedFrom( ""CRC32"" ) `line1
+line2` , } MetaData BodyLength {
+u8
+rootA, } // c")).
+Eval vm_compute in ("<<<M1649>>>" ++ check (runes_of_ascii "root packet /// triple
+rootA {	i32
+@calculatedFrom(MetaDataX ""CRC32"" ) `line1
+line2` , } MetaData BodyLength {
+u8
+rootA, } // c")).
+Eval vm_compute in ("<<<M1645>>>" ++ check (runes_of_ascii "root packet /// triple
+rootA {	(
+MetaDataX@calculatedFrom( ""CRC32"" ) `line1
+line2` , } MetaData BodyLength {
+u8
+rootA, } // c")).
+Eval vm_compute in ("<<<M1625>>>" ++ check (runes_of_ascii " packet /// triple
+rootA {	i32
+MetaDataX@calculatedFrom( ""CRC32"" ) `line1
+line2` , } MetaData BodyLength {
+u8
+rootA, } // c")).
+Eval vm_compute in ("<<<M3439>>>" ++ check (runes_of_ascii "packet B {
     u8 a,
 }
 root packet P {
     u8 K,
-    u8 L @lengthOf(Body),
     match K as Body {
         1 : B,
     },
+    u16 L @lengthOf(Body),
 }
 ")).
-Eval vm_compute in ("<<<M1885>>>" ++ check (runes_of_ascii "packet
-    Pad // a // b
-{ i8i8 @calculatedFrom( ""a	b"") `u8 x,` ,
-} options{ float// " ++ [128512]%N ++ runes_of_ascii " emoji
-= f64 i64_
-=//	t
-$ 00 }
-")).
-Eval vm_compute in ("<<<M1787>>>" ++ check (runes_of_ascii "packet
-    { // a // b
-Pad i8i8 @calculatedFrom( ""a	b"") `u8 x,` ,
-} options{ float// " ++ [128512]%N ++ runes_of_ascii " emoji
-= f64 i64_
-=//	t
-00 }
-")).
-Eval vm_compute in ("<<<M1835>>>" ++ check (runes_of_ascii "packet
-    Pad // a // b
-{ i8i8 @calculatedFrom( ""a	b"") `u8 x,` ,
-} options float// " ++ [128512]%N ++ runes_of_ascii " emoji
-= f64 i64_
-=//	t
-00 }
-")).
-Eval vm_compute in ("<<<M1785>>>" ++ check (runes_of_ascii "packet
-     // a // b
-{ i8i8 @calculatedFrom( ""a	b"") `u8 x,` ,
-} options{ float// " ++ [128512]%N ++ runes_of_ascii " emoji
-= f64 i64_
-=//	t
-00 }
-")).
-Eval vm_compute in ("<<<M1036>>>" ++ check (runes_of_ascii "options {
-    Packet =
-    // a // b
-    007
-    ;
-u128 =	false ; Header
-    = 42 Z9_= char[ 10
-]; } // a // b")).
-Eval vm_compute in ("<<<M4453>>>" ++ check (runes_of_ascii "  options { LittleEndian=	true ;
-}root packet P { u16
+Eval vm_compute in ("<<<M4449>>>" ++ check (runes_of_ascii "
 
-    a , u32 Sum  @calculatedFrom(
-""CRC32""
-
-)
-	,}
-")).
-Eval vm_compute in ("<<<M383>>>" ++ check (runes_of_ascii "options { leftPad
-= '\x00'
-    ;Pad =
-    char
-    }packet f32a {
-    @leftPad ( ) f64	stringy
-    , } 	 ")).
-Eval vm_compute in ("<<<M3345>>>" ++ check (runes_of_ascii "packet calculatedFrom { @tag( // c
-4294967296 ) u msg_type , char[ 3 ] crc @lengthOf( len ) `u8 x,` , }")).
-Eval vm_compute in ("<<<M3763>>>" ++ check (runes_of_ascii "MetaData float {
-    tag body `" ++ [233]%N ++ runes_of_ascii "`,
-    f64 i8i8 `{ , }`,
-    f32 chars `two words`,
-    Pad i64_,
-}//	t")).
-Eval vm_compute in ("<<<M3041>>>" ++ check (runes_of_ascii "packet A {
-    Inner {
-        u8 x `
-x`,
-        Deep {
-            u8 y `
-x`,
-        },
-    },
-}")).
-Eval vm_compute in ("<<<M2961>>>" ++ check (runes_of_ascii "packet A {
-  match k as n {
-    [""a"", ""bb"", 007, ""d"", ""e"", 66, ""g"", ""h"", 9] : B
-    2 : C
-  },
-}")).
-Eval vm_compute in ("<<<M3227>>>" ++ check (runes_of_ascii "packet Logon { @tag( 42 )
-// c
-@rightPad ( ' ' ) @leftPad ( ) repeat trueish { string T , } , }")).
-Eval vm_compute in ("<<<M4332>>>" ++ check (runes_of_ascii "packet o {
-    @tag(42)
-    repeat x {
-        char[0123456789] i64_,// c
-    },
-}
-
-options {
-}")).
-Eval vm_compute in ("<<<M4265>>>" ++ check (runes_of_ascii "options {
-    Header = true;
-    pack = ""{,}"";
-}
-
-//
-/// triple
-options {
-    i8i8 = false
-}")).
-Eval vm_compute in ("<<<M2023>>>" ++ check (runes_of_ascii "root
-packet crc
-    { f32a @calculatedFrom( """ ++ [233]%N ++ runes_of_ascii "t" ++ [233]%N ++ runes_of_ascii """ )
-    `say ""hi""`, lengthOf `` ,  char[")).
-Eval vm_compute in ("<<<M2769>>>" ++ check (runes_of_ascii "`// not a comment` { lengthOf float64 f64 false int32 repeat char[] match u64 @rightPad")).
-Eval vm_compute in ("<<<M1974>>>" ++ check (runes_of_ascii "root
-packet crc
-    ; f32a @calculatedFrom( """ ++ [233]%N ++ runes_of_ascii "t" ++ [233]%N ++ runes_of_ascii """ )
-    `say ""hi""`, lengthOf `` ,  }")).
-Eval vm_compute in ("<<<M3426>>>" ++ check (runes_of_ascii "
-packet	Inner	{u8 a
-,
-}
+  packet
+    crc { repeat int64
+string_
+`" ++ [28040; 24687; 31867; 22411]%N ++ runes_of_ascii "` ,}
 	root
-    packet 
-P
-
-    { 
-Inner 
-ref_obj
-,
-u8
-
-x , 
-}
-")).
-Eval vm_compute in ("<<<M1976>>>" ++ check (runes_of_ascii "root
-packet crc
-    {  @calculatedFrom( """ ++ [233]%N ++ runes_of_ascii "t" ++ [233]%N ++ runes_of_ascii """ )
-    `say ""hi""`, lengthOf `` ,  }")).
-Eval vm_compute in ("<<<M3318>>>" ++ check (runes_of_ascii "packet o { @tag( 42 ) repeat x { char[ 0123456789 ] i64_ // c
-, } , } options { }")).
-Eval vm_compute in ("<<<M125>>>" ++ check (runes_of_ascii "root
-packet x_y_z{
-// a // b
-// packet A { u8 x, }
-repeat falsey // " ++ [27880; 37322]%N ++ runes_of_ascii "
-`" ++ [233]%N ++ runes_of_ascii "` , }")).
-Eval vm_compute in ("<<<M2733>>>" ++ check (runes_of_ascii """a	b"" , char[] @rightPad false @calculatedFrom( Foo ] i64 char MetaData 7 { }")).
-Eval vm_compute in ("<<<M4327>>>" ++ check (runes_of_ascii "
-
-  options {	}	packet
-	string_
+    packet leftPad
 
 {
-@rightPad
-	(
-'0'	// c
-) u16  body , } ")).
-Eval vm_compute in ("<<<M2890>>>" ++ check (runes_of_ascii "packet A {
+}
+
+    MetaData
+	A
+	{ } 
+        // c")).
+Eval vm_compute in ("<<<M1881>>>" ++ check (runes_of_ascii "packet
+    Pad // a // b
+{ i8i8 @calculatedFrom( ""a	b"") `u8 x,` ,
+} options{ float// " ++ [128512]%N ++ runes_of_ascii " emoji
+= f64 i64_
+/=//	t
+00 }
+")).
+Eval vm_compute in ("<<<M1832>>>" ++ check (runes_of_ascii "packet
+    Pad // a // b
+{ i8i8 @calculatedFrom( ""a	b"") `u8 x,` ,
+} {options float// " ++ [128512]%N ++ runes_of_ascii " emoji
+= f64 i64_
+=//	t
+00 }
+")).
+Eval vm_compute in ("<<<M4067>>>" ++ check (runes_of_ascii "options {
+}
+
+MetaData x_y_z {
+    u32 u8x `line1
+        line2`,
+    float64 u `line1
+        line2`,
+}// @lengthOf(")).
+Eval vm_compute in ("<<<M1855>>>" ++ check (runes_of_ascii "packet
+    Pad // a // b
+{ i8i8 @calculatedFrom( ""a	b"") `u8 x,` ,
+} options{ float// " ++ [128512]%N ++ runes_of_ascii " emoji
+= f64 
+=//	t
+00 }
+")).
+Eval vm_compute in ("<<<M799>>>" ++ check (runes_of_ascii "root packet trueish {
+@tag(255
+    )
+    // `tick` ""quote"" 'q'
+    repeat f32a
+    leftPad /// triple
+`doc`,}
+")).
+Eval vm_compute in ("<<<M2965>>>" ++ check (runes_of_ascii "packet A {
   match k as n {
-    [1, ""bb"", 007, ""d""] : B
+    [""a"", ""bb"", ""c c"", ""d"", ""e"", ""f"", ""g"", ""h"", ""i"", ""j""] : B,
     2 : C
   },
 }")).
-Eval vm_compute in ("<<<M2878>>>" ++ check (runes_of_ascii "packet A {
+Eval vm_compute in ("<<<M1864>>>" ++ check (runes_of_ascii "packet
+    Pad // a // b
+{ i8i8 @calculatedFrom( ""a	b"") `u8 x,` ,
+} options{ float// " ++ [128512]%N ++ runes_of_ascii " emoji
+= f64 i64_")).
+Eval vm_compute in ("<<<M3352>>>" ++ check (runes_of_ascii "packet calculatedFrom { @tag( 4294967296 ) u
+// c
+msg_type , char[ 3 ] crc @lengthOf( len ) `u8 x,` , }")).
+Eval vm_compute in ("<<<M2998>>>" ++ check (runes_of_ascii "packet A {
   match k as n {
-    [""a"", 22, ""c c""] : B,
+    [1, 22, ""c c"", 4, 5, ""f"", 7, 8, ""i"", 10, 11, ""l""] : B
     2 : C
   },
 }")).
-Eval vm_compute in ("<<<M2211>>>" ++ check (runes_of_ascii "root
-    // `tick` ""quote"" 'q'
-    packet na" ++ [239]%N ++ runes_of_ascii "ve { trueish Packet , }
+Eval vm_compute in ("<<<M229>>>" ++ check (runes_of_ascii "packet x_y_z { char[
+    // packet A { u8 x, }
+    42 ] A @calculatedFrom( ""`tick`"" ) `it's` , }
+
 ")).
-Eval vm_compute in ("<<<M2949>>>" ++ check (runes_of_ascii "packet A { Inner { match k as n { [1,22,007,4,5,66,7,8] : B, }, }, }")).
-Eval vm_compute in ("<<<M2178>>>" ++ check (runes_of_ascii "root
-    // `tick` ""quote"" 'q'
-    packet As { trueish , Packet }
+Eval vm_compute in ("<<<M3258>>>" ++ check (runes_of_ascii "packet Logon { @tag( 42 ) @rightPad ( ' ' ) @leftPad ( ) repeat trueish { string T , } , } // c
 ")).
-Eval vm_compute in ("<<<M1926>>>" ++ check (runes_of_ascii "
-packet	As { @calculatedFrom(//x
-""{,}""	)lengthOf lengthOf , } 	 ")).
-Eval vm_compute in ("<<<M2191>>>" ++ check (runes_of_ascii "root
+Eval vm_compute in ("<<<M3228>>>" ++ check (runes_of_ascii "packet Logon { @tag( 42 ) @rightPad // c
+( ' ' ) @leftPad ( ) repeat trueish { string T , } , }")).
+Eval vm_compute in ("<<<M109>>>" ++ check (runes_of_ascii "root
+    packet lengthOf { @tag(4294967296 ) @calculatedFrom(
+""" ++ [128512]%N ++ runes_of_ascii """)
+    i32
+msg_type `a\`
+, }
+")).
+Eval vm_compute in ("<<<M3773>>>" ++ check (runes_of_ascii "root packet repeatCount {
+    @lengthOf(Foo)
+    @tag(4294967296)
+    repeat f32 u8x,
+}
+// c")).
+Eval vm_compute in ("<<<M1069>>>" ++ check (runes_of_ascii "MetaData lengthOf // a // b
+{i64 matchKey
+// " ++ [128512]%N ++ runes_of_ascii " emoji
+// packet A { u8 x, }
+`say ""hi""`
+, }")).
+Eval vm_compute in ("<<<M1992>>>" ++ check (runes_of_ascii "root
+packet crc
+    { f32a @calculatedFrom( """ ++ [233]%N ++ runes_of_ascii "t" ++ [233]%N ++ runes_of_ascii """ ) )
+    `say ""hi""`, lengthOf `` ,  }")).
+Eval vm_compute in ("<<<M2039>>>" ++ check (runes_of_ascii "root
+packet crc
+    { f32a @calculatedFrom( """ ++ [233]%N ++ runes_of_ascii "t" ++ [233]%N ++ runes_of_ascii """ ?)
+    `say ""hi""`, lengthOf `` ,  }")).
+Eval vm_compute in ("<<<M2950>>>" ++ check (runes_of_ascii "packet A {
+  match k as n {
+    [1, 22, 007, 4, 5, 66, 7, 8, 9] : B,
+    2 : C
+  },
+}")).
+Eval vm_compute in ("<<<M2929>>>" ++ check (runes_of_ascii "packet A {
+  match k as n {
+    [1, ""bb"", 007, ""d"", 5, ""f"", 7] : B
+    2 : C
+  },
+}")).
+Eval vm_compute in ("<<<M3295>>>" ++ check (runes_of_ascii "packet
+// c
+o { @tag( 42 ) repeat x { char[ 0123456789 ] i64_ , } , } options { }")).
+Eval vm_compute in ("<<<M3327>>>" ++ check (runes_of_ascii "packet o { @tag( 42 ) repeat x { char[ 0123456789 ] i64_ , } , }
+// c
+options { }")).
+Eval vm_compute in ("<<<M1340>>>" ++ check (runes_of_ascii "//x
+packet calculatedFrom
+{ match trueish as int  { ""it's""
+: float	,}
+,
+    }
+")).
+Eval vm_compute in ("<<<M3582>>>" ++ check (runes_of_ascii "packet
+A{ 
+Inner
+{
+u8
+	x `a
+b`
+,Deep
+    {  u8 y
+
+    `a
+b`,
+
+}
+
+, }
+,
+
+}")).
+Eval vm_compute in ("<<<M3719>>>" ++ check (runes_of_ascii "packet A {
+    B b `a
+    b`,
+    B `a
+    b`,
+    repeat B bs `a
+    b`,
+}")).
+Eval vm_compute in ("<<<M779>>>" ++ check (runes_of_ascii "MetaData
+    repeatCount {
+    T matchKey
+    , float Packet
+    ,
+    }")).
+Eval vm_compute in ("<<<M2208>>>" ++ check (runes_of_ascii "root
     // `tick` ""quote"" 'q'
-    packet As { trueish Packet ")).
-Eval vm_compute in ("<<<M3033>>>" ++ check (runes_of_ascii "packet A {
-    B b `x
-`,
-    B `x
-`,
-    repeat B bs `x
-`,
+@tag    packet As { trueish Packet , }
+")).
+Eval vm_compute in ("<<<M1120>>>" ++ check (runes_of_ascii "MetaData
+    Pad { Foo a1 ,
+f64
+metadata
+    , zchar
+    string_ , }")).
+Eval vm_compute in ("<<<M2824>>>" ++ check (runes_of_ascii "false @rightPad u8x true u64 ] repeat char uint16 [ MetaData options")).
+Eval vm_compute in ("<<<M2163>>>" ++ check (runes_of_ascii "root
+    // `tick` ""quote"" 'q'
+    packet { As trueish Packet , }
+")).
+Eval vm_compute in ("<<<M4497>>>" ++ check (runes_of_ascii "packet As{
+@calculatedFrom( //@lengthOfx
+	""{,}"")	lengthOf , }
+")).
+Eval vm_compute in ("<<<M1897>>>" ++ check (runes_of_ascii "
+packet packet	As { @calculatedFrom(//x
+""{,}""	)lengthOf , } 	 ")).
+Eval vm_compute in ("<<<M2864>>>" ++ check (runes_of_ascii "packet A {
+  match k as n {
+    [1, 22] : B
+    2 : C
+  },
 }")).
 Eval vm_compute in ("<<<M2861>>>" ++ check (runes_of_ascii "packet A {
   match k as n {
@@ -2531,110 +2494,96 @@ Eval vm_compute in ("<<<M2861>>>" ++ check (runes_of_ascii "packet A {
     2 : C
   },
 }")).
-Eval vm_compute in ("<<<M783>>>" ++ check (runes_of_ascii "MetaData options1 { char[] rootA ,
-    a1 body
-`" ++ [233]%N ++ runes_of_ascii "` , }
-")).
-Eval vm_compute in ("<<<M3992>>>" ++ check (runes_of_ascii "packet Pad {
-    i8i8 @calculatedFrom(""a	b"") `u8 x,`,
-}")).
-Eval vm_compute in ("<<<M3163>>>" ++ check (runes_of_ascii "// a
-MetaData M {} // b
-// c
-MetaData N {} // d
-// e")).
-Eval vm_compute in ("<<<M2417>>>" ++ check (runes_of_ascii "MetaData A
-{
-i64
-chars	' ' } // `tick` ""quote"" 'q'")).
-Eval vm_compute in ("<<<M841>>>" ++ check (runes_of_ascii "root
-// @lengthOf(
-// @lengthOf(
-packet f32a
-{
-}")).
-Eval vm_compute in ("<<<M2399>>>" ++ check (runes_of_ascii "MetaData A
-{
-i64
-chars	,  // `tick` ""quote"" 'q'")).
-Eval vm_compute in ("<<<M1656>>>" ++ check (runes_of_ascii "root packet /// triple
-rootA {	i32
-MetaDataX")).
-Eval vm_compute in ("<<<M732>>>" ++ check (runes_of_ascii "options {
-calculatedFrom
-= f64
-} // a // b")).
-Eval vm_compute in ("<<<M2152>>>" ++ check (runes_of_ascii "MetaData na" ++ [239]%N ++ runes_of_ascii "ve
-{// " ++ [128512]%N ++ runes_of_ascii " emoji
-i16 stringy , }")).
-Eval vm_compute in ("<<<M557>>>" ++ check (runes_of_ascii "
-options
-    {
-i8i8= '0';asx =uint32	}
-")).
-Eval vm_compute in ("<<<M3196>>>" ++ check (runes_of_ascii "MetaData zchar { zchar[ // c
-3 ] Pad , }")).
-Eval vm_compute in ("<<<M3926>>>" ++ check (runes_of_ascii "root packet A {
-    u8 x `
-        `,
-}")).
-Eval vm_compute in ("<<<M311>>>" ++ check (runes_of_ascii "MetaData x_y_z { string options1 , }
-")).
-Eval vm_compute in ("<<<M2614>>>" ++ check (runes_of_ascii "packet A { match k as n { 1 : 2 }, }")).
-Eval vm_compute in ("<<<M2128>>>" ++ check (runes_of_ascii "MetaData x
-{// " ++ [128512]%N ++ runes_of_ascii " emoji
-i16 stringy")).
-Eval vm_compute in ("<<<M4112>>>" ++ check (runes_of_ascii "packet chars {
-    repeat pack,
-}")).
-Eval vm_compute in ("<<<M2096>>>" ++ check (runes_of_ascii "MetaData A { '\x01' u64 pack, }")).
-Eval vm_compute in ("<<<M3098>>>" ++ check (runes_of_ascii "packet A {
- u8 x `d" ++ [8232]%N ++ runes_of_ascii "`, // c" ++ [8232]%N ++ runes_of_ascii "
-}")).
-Eval vm_compute in ("<<<M462>>>" ++ check (runes_of_ascii "packet
-    // " ++ [27880; 37322]%N ++ runes_of_ascii "
-    tag
-{}
-")).
-Eval vm_compute in ("<<<M2640>>>" ++ check (runes_of_ascii "packet A { } x packet B { }")).
-Eval vm_compute in ("<<<M2620>>>" ++ check (runes_of_ascii "packet A { @tag(x) u8 x, }")).
-Eval vm_compute in ("<<<M3281>>>" ++ check (runes_of_ascii "options { u8x = 3 } // c
-")).
-Eval vm_compute in ("<<<M3273>>>" ++ check (runes_of_ascii "options { // c
-u8x = 3 }")).
-Eval vm_compute in ("<<<M2792>>>" ++ check (runes_of_ascii "uint16 ; MetaData f64 (")).
-Eval vm_compute in ("<<<M3928>>>" ++ check (runes_of_ascii "
-packet
-A
+Eval vm_compute in ("<<<M473>>>" ++ check (runes_of_ascii "packet len {	Logon@calculatedFrom( // a // b
+""a\""b""
+), }")).
+Eval vm_compute in ("<<<M3926>>>" ++ check (runes_of_ascii "MetaData
+	u128
 
-{ } 
-// c" ++ [8203]%N ++ runes_of_ascii "
+    {
+
+    uint32
+    lengthOf,	}
+
 ")).
-Eval vm_compute in ("<<<M552>>>" ++ check (runes_of_ascii "MetaData Packet  { }")).
-Eval vm_compute in ("<<<M2643>>>" ++ check (runes_of_ascii "MetaData M { x y, }")).
-Eval vm_compute in ("<<<M3061>>>" ++ check (runes_of_ascii "packet A {
-}
-// c ")).
-Eval vm_compute in ("<<<M3142>>>" ++ check (runes_of_ascii "// c" ++ [6158]%N ++ runes_of_ascii "
+Eval vm_compute in ("<<<M4139>>>" ++ check (runes_of_ascii "packet A {
+    u8 x `a
+            b
+          c`,
+}")).
+Eval vm_compute in ("<<<M3771>>>" ++ check (runes_of_ascii "packet msg_type {
+    zchar[00] _x,
+}// @lengthOf(")).
+Eval vm_compute in ("<<<M2264>>>" ++ check (runes_of_ascii "MetaData Packet { }packet	asx  { @lengthOf( asx)")).
+Eval vm_compute in ("<<<M2847>>>" ++ check (runes_of_ascii "options i32 @rightPad { } ] 255 ; int8 as f64 ,")).
+Eval vm_compute in ("<<<M1121>>>" ++ check (runes_of_ascii "options{ MetaDataX=// @lengthOf(
+true
+    ; }")).
+Eval vm_compute in ("<<<M3053>>>" ++ check (runes_of_ascii "options {
+    a = ""x\
+y"";
+    b = ""x\
+y""
+}")).
+Eval vm_compute in ("<<<M1913>>>" ++ check (runes_of_ascii "
+packet	As { f32//x
+""{,}""	)lengthOf , } 	 ")).
+Eval vm_compute in ("<<<M4524>>>" ++ check (runes_of_ascii "
+
+  // " ++ [128512]%N ++ runes_of_ascii " emoji
+	packet
+f32a
+
+    {
+	}
+")).
+Eval vm_compute in ("<<<M3195>>>" ++ check (runes_of_ascii "MetaData zchar {
+// c
+zchar[ 3 ] Pad , }")).
+Eval vm_compute in ("<<<M2606>>>" ++ check (runes_of_ascii "packet A { match k as n { [1,] : B }, }")).
+Eval vm_compute in ("<<<M4068>>>" ++ check (runes_of_ascii "options {
+    int = ""\" ++ [233]%N ++ runes_of_ascii """// " ++ [128512]%N ++ runes_of_ascii " emoji
+}//")).
+Eval vm_compute in ("<<<M2613>>>" ++ check (runes_of_ascii "packet A { match k as n { x : B }, }")).
+Eval vm_compute in ("<<<M2615>>>" ++ check (runes_of_ascii "packet A { match k as n { 1 B }, }")).
+Eval vm_compute in ("<<<M2249>>>" ++ check (runes_of_ascii "MetaData Packet { }packet	asx  {")).
+Eval vm_compute in ("<<<M4219>>>" ++ check (runes_of_ascii "root packet P {
+    string s,
+}")).
+Eval vm_compute in ("<<<M3133>>>" ++ check (runes_of_ascii "packet A {
+ u8 x `d" ++ [8203]%N ++ runes_of_ascii "`, // c" ++ [8203]%N ++ runes_of_ascii "
+}")).
+Eval vm_compute in ("<<<M2074>>>" ++ check (runes_of_ascii "MetaData A { u64 pack char }")).
+Eval vm_compute in ("<<<M2778>>>" ++ check ([65533; 28]%N ++ runes_of_ascii "#" ++ [65533; 65533]%N ++ runes_of_ascii "]" ++ [65533]%N ++ runes_of_ascii "L)" ++ [65533; 65533]%N ++ runes_of_ascii "." ++ [65533; 127]%N ++ runes_of_ascii "t" ++ [65533; 65533; 16]%N ++ runes_of_ascii ":H""*" ++ [65533; 65533]%N ++ runes_of_ascii "S" ++ [65533; 65533]%N)).
+Eval vm_compute in ("<<<M2721>>>" ++ check (runes_of_ascii ", 42 { int16 options false")).
+Eval vm_compute in ("<<<M3388>>>" ++ check (runes_of_ascii "packet lengthOf { } // c
+")).
+Eval vm_compute in ("<<<M3276>>>" ++ check (runes_of_ascii "options { u8x
+// c
+= 3 }")).
+Eval vm_compute in ("<<<M2792>>>" ++ check (runes_of_ascii "uint16 ; MetaData f64 (")).
+Eval vm_compute in ("<<<M69>>>" ++ check (runes_of_ascii "options	{ i64_ =00 }
+")).
+Eval vm_compute in ("<<<M609>>>" ++ check (runes_of_ascii "packet	Foo{
+    } 	 ")).
+Eval vm_compute in ("<<<M2770>>>" ++ check ([65533]%N ++ runes_of_ascii "9" ++ [20; 65533; 11; 23; 5; 2; 65533; 65533; 65533]%N ++ runes_of_ascii "
+" ++ [65533; 65533; 65533; 27]%N ++ runes_of_ascii "b" ++ [65533; 17]%N)).
+Eval vm_compute in ("<<<M2764>>>" ++ check (runes_of_ascii "p*ytL24P\39v6K0pl$")).
+Eval vm_compute in ("<<<M3132>>>" ++ check (runes_of_ascii "// c" ++ [8203]%N ++ runes_of_ascii "
 packet A {
 }")).
-Eval vm_compute in ("<<<M3089>>>" ++ check (runes_of_ascii "packet A {
-}// c" ++ [8202]%N)).
-Eval vm_compute in ("<<<M791>>>" ++ check (runes_of_ascii "
-// @lengthOf(
-")).
-Eval vm_compute in ("<<<M4008>>>" ++ check (runes_of_ascii "options
+Eval vm_compute in ("<<<M3074>>>" ++ check (runes_of_ascii "packet A {
+}// c" ++ [133]%N)).
+Eval vm_compute in ("<<<M707>>>" ++ check (runes_of_ascii "  options{} //x")).
+Eval vm_compute in ("<<<M4330>>>" ++ check (runes_of_ascii "packet len {
+}")).
+Eval vm_compute in ("<<<M2826>>>" ++ check (runes_of_ascii "W" ++ [14; 65533]%N ++ runes_of_ascii "3" ++ [65533; 1970; 65533; 65533]%N ++ runes_of_ascii "HU>")).
+Eval vm_compute in ("<<<M2463>>>" ++ check (runes_of_ascii "metadata")).
+Eval vm_compute in ("<<<M2432>>>" ++ check (runes_of_ascii "zchar[")).
+Eval vm_compute in ("<<<M2471>>>" ++ check (runes_of_ascii "'\x0'")).
+Eval vm_compute in ("<<<M50>>>" ++ check (runes_of_ascii "//
 
-{ 
-}
 ")).
-Eval vm_compute in ("<<<M2791>>>" ++ check (runes_of_ascii "f['U26$ht_8")).
-Eval vm_compute in ("<<<M1877>>>" ++ check (runes_of_ascii "packet
- ")).
-Eval vm_compute in ("<<<M3843>>>" ++ check (runes_of_ascii "// c 
-")).
-Eval vm_compute in ("<<<M2430>>>" ++ check (runes_of_ascii "charz")).
-Eval vm_compute in ("<<<M3115>>>" ++ check (runes_of_ascii "// c" ++ [11]%N)).
-Eval vm_compute in ("<<<M3704>>>" ++ check (runes_of_ascii "// c")).
-Eval vm_compute in ("<<<M2676>>>" ++ check (runes_of_ascii """s""")).
-Eval vm_compute in ("<<<M2453>>>" ++ check (runes_of_ascii "a")).
+Eval vm_compute in ("<<<M2437>>>" ++ check (runes_of_ascii "u80")).
+Eval vm_compute in ("<<<M2133>>>" ++ check (runes_of_ascii "Me")).
+Eval vm_compute in ("<<<M2554>>>" ++ check ([21517]%N)).
